@@ -16,745 +16,816 @@ Definition terms (ts : list tok) (t : pt) : string :=
   digest (show_toks (Some ts)) ++ " " ++ digest (show_pt (Some t)) ++ " " ++ digest (show_pt (parse ts)).
 Definition terms_full (ts : list tok) (t : pt) : string :=
   show_toks (Some ts) ++ nl ++ show_pt (Some t) ++ nl ++ show_pt (parse ts).
-Eval vm_compute in ("<<<M6>>>" ++ check (runes_of_ascii "root	packet
-    charz { // " ++ [128512]%N ++ runes_of_ascii " emoji
-repeat char[65535
-]
-options1,} options  { As=
-    //
-    ""\n""
-    } // a // b")).
-Eval vm_compute in ("<<<T6>>>" ++ terms [mkTok 34 "root" 1 0 false; mkTok 35 "packet" 1 5 false; mkTok 42 "charz" 2 4 false; mkTok 2 "{" 2 10 false; mkTok 44 (string_of_bytes [47; 47; 32; 240; 159; 152; 128; 32; 101; 109; 111; 106; 105]%N) 2 12 true; mkTok 36 "repeat" 3 0 false; mkTok 12 "char[" 3 7 false; mkTok 30 "65535" 3 12 false; mkTok 13 "]" 4 0 false; mkTok 42 "options1" 5 0 false; mkTok 40 "," 5 8 false; mkTok 3 "}" 5 9 false; mkTok 1 "options" 5 11 false; mkTok 2 "{" 5 20 false; mkTok 42 "As" 5 22 false; mkTok 4 "=" 5 24 false; mkTok 44 "//" 6 4 true; mkTok 31 """\n""" 7 4 false; mkTok 3 "}" 8 4 false; mkTok 44 "// a // b" 8 6 true; mkTok 0 "<EOF>" 8 15 false] (mkPacket (mkPtok 34 "root" 1 0 0) (Some (mkPtok 3 "}" 8 4 18)) [(DPacket (mkPacketDef (mkSpan (mkPtok 34 "root" 1 0 0) (mkPtok 3 "}" 5 9 11)) (Some (mkPtok 34 "root" 1 0 0)) (mkPtok 35 "packet" 1 5 1) (mkPtok 42 "charz" 2 4 2) (mkPtok 2 "{" 2 10 3) [(mkFieldWithAttr (mkSpan (mkPtok 36 "repeat" 3 0 5) (mkPtok 40 "," 5 8 10)) [] (MetaField (mkSpan (mkPtok 36 "repeat" 3 0 5) (mkPtok 40 "," 5 8 10)) (Some (mkPtok 36 "repeat" 3 0 5)) (mkMetaDecl (mkSpan (mkPtok 12 "char[" 3 7 6) (mkPtok 40 "," 5 8 10)) (TyFixed (mkSpan (mkPtok 12 "char[" 3 7 6) (mkPtok 13 "]" 4 0 8)) (mkFixedString (mkSpan (mkPtok 12 "char[" 3 7 6) (mkPtok 13 "]" 4 0 8)) (mkPtok 12 "char[" 3 7 6) (mkPtok 30 "65535" 3 12 7) (mkPtok 13 "]" 4 0 8))) (mkPtok 42 "options1" 5 0 9) None (mkPtok 40 "," 5 8 10))))] (mkPtok 3 "}" 5 9 11))); (DOption (mkOptionDef (mkSpan (mkPtok 1 "options" 5 11 12) (mkPtok 3 "}" 8 4 18)) (mkPtok 1 "options" 5 11 12) (mkPtok 2 "{" 5 20 13) [(mkOptionDecl (mkSpan (mkPtok 42 "As" 5 22 14) (mkPtok 31 """\n""" 7 4 17)) (mkPtok 42 "As" 5 22 14) (mkPtok 4 "=" 5 24 15) (VString (mkSpan (mkPtok 31 """\n""" 7 4 17) (mkPtok 31 """\n""" 7 4 17)) (mkPtok 31 """\n""" 7 4 17)) None)] (mkPtok 3 "}" 8 4 18)))])).
+Eval vm_compute in ("<<<M6>>>" ++ check (runes_of_ascii "packet
+    Logon
+{
+}
+MetaData repeatCount{//	t
+}
+// trailing space 
+")).
+Eval vm_compute in ("<<<T6>>>" ++ terms [mkTok 35 "packet" 1 0 false; mkTok 42 "Logon" 2 4 false; mkTok 2 "{" 3 0 false; mkTok 3 "}" 4 0 false; mkTok 37 "MetaData" 5 0 false; mkTok 42 "repeatCount" 5 9 false; mkTok 2 "{" 5 20 false; mkTok 44 (string_of_bytes [47; 47; 9; 116]%N) 5 21 true; mkTok 3 "}" 6 0 false; mkTok 44 "// trailing space " 7 0 true; mkTok 0 "<EOF>" 8 0 false] (mkPacket (mkPtok 35 "packet" 1 0 0) (Some (mkPtok 3 "}" 6 0 8)) [(DPacket (mkPacketDef (mkSpan (mkPtok 35 "packet" 1 0 0) (mkPtok 3 "}" 4 0 3)) None (mkPtok 35 "packet" 1 0 0) (mkPtok 42 "Logon" 2 4 1) (mkPtok 2 "{" 3 0 2) [] (mkPtok 3 "}" 4 0 3))); (DMeta (mkMetaDef (mkSpan (mkPtok 37 "MetaData" 5 0 4) (mkPtok 3 "}" 6 0 8)) (mkPtok 37 "MetaData" 5 0 4) (mkPtok 42 "repeatCount" 5 9 5) (mkPtok 2 "{" 5 20 6) [] (mkPtok 3 "}" 6 0 8)))])).
 Eval vm_compute in ("<<<M16>>>" ++ check (runes_of_ascii "
 ")).
-Eval vm_compute in ("<<<M26>>>" ++ check (runes_of_ascii "
-root packet  calculatedFrom { repeat Header
-, } MetaData Header{ zchar[// packet A { u8 x, }
-10
-]	As
-    ,// trailing space 
-string
-chars, crc Logon `u8 x,`  , Z9_ Logon ,	}packet trueish
-    {}
-    MetaData
-A { }  options { options1
-=
-' '
-    //
-    ; //	t
-}
-")).
-Eval vm_compute in ("<<<M36>>>" ++ check (runes_of_ascii "options { body = 42 ;Logon
-// @lengthOf(
-// " ++ [27880; 37322]%N ++ runes_of_ascii "
-=
-    '0'
-    ; metadata=
-""" ++ [128512]%N ++ runes_of_ascii """; Foo =true//
-i64_
-='\x00'  }
-")).
-Eval vm_compute in ("<<<M46>>>" ++ check (runes_of_ascii "
-MetaData int	{ string f32a//	t
-`two words`
-, } //")).
-Eval vm_compute in ("<<<M56>>>" ++ check (runes_of_ascii "root packet calculatedFrom
-{ /// triple
-@calculatedFrom( // packet A { u8 x, }
-""{,}"" ) match asx
-as i8i8 { ""CRC32"" :f32a	,
-    ""// no comment""	:Packet
-    ,// trailing space 
-}
-,
-    repeat zchar[ 7 ] len , //
-match	options1// c
-as string_	{""" ++ [128512]%N ++ runes_of_ascii """ : metadata ,	[""\n""
-// `tick` ""quote"" 'q'
-//
-,
-    ""CRC32"" , ""a\""b""]
-:
-// " ++ [128512]%N ++ runes_of_ascii " emoji
-// " ++ [128512]%N ++ runes_of_ascii " emoji
-x_y_z // " ++ [27880; 37322]%N ++ runes_of_ascii "
-, 42
-: string_	},@lengthOf(
-msg_type) string Pad
-// trailing space 
-// @lengthOf(
-`tab	here` ,
-f32a
-, match  Logon as stringy { 007
-    :
-    metadata	, [ 255 , 10 ] : matchKey, [
-10 ,""1"",	""`tick`"" , 0]:roots , 255
-// @lengthOf(
-// c
-: o,	[ 1 ]
-: msg_type  , 0123456789
-: falsey	} , } root packet
-crc { }
-    options
-    { falsey =
-false ;len =
-""\" ++ [233]%N ++ runes_of_ascii """// " ++ [27880; 37322]%N ++ runes_of_ascii "
-;A
-=
-""a	b""	lengthOf	= ""1""}
-")).
-Eval vm_compute in ("<<<M66>>>" ++ check (runes_of_ascii "
-MetaData x_y_z // c
-{char As ,} packet packetx { asx @calculatedFrom( """ ++ [128512]%N ++ runes_of_ascii """
-) `a\`, MetaDataX // packet A { u8 x, }
-, @leftPad
-(
-    '0'
-)
-asx@lengthOf( f32a) `a\` , @lengthOf(	metadata )
-match	Packet as lengthOf { [ // `tick` ""quote"" 'q'
-""packet"", """ ++ [128512]%N ++ runes_of_ascii """] : // trailing space 
-Foo , 0
-    :
-    crc [
-10
-, ""CRC32"" ]
-:
-trueish
-//
-// " ++ [27880; 37322]%N ++ runes_of_ascii "
-,}	, } packet/// triple
-lengthOf { @lengthOf( msg_type )
-repeat zchar[7 ]  f32a `" ++ [233]%N ++ runes_of_ascii "`,
-int64 tag ,  }
-")).
-Eval vm_compute in ("<<<M76>>>" ++ check (runes_of_ascii "root packet x	{ @calculatedFrom(""a\\"" ) zchar[42 ]float @calculatedFrom(""a\""b""  ) `
-` ,
-    } MetaData o
-    {
-int8
-BodyLength,string len ,
-    string len , float falsey ,T float
-    , }	MetaData pack { /// triple
-charz o
-`// not a comment`	,	float64 f32a `tab	here`  , int32  u8x  `// not a comment` ,char[10 ]
-a1
-, float32 options1  ,
-} // `tick` ""quote"" 'q'")).
-Eval vm_compute in ("<<<T76>>>" ++ terms [mkTok 34 "root" 1 0 false; mkTok 35 "packet" 1 5 false; mkTok 42 "x" 1 12 false; mkTok 2 "{" 1 14 false; mkTok 5 "@calculatedFrom(" 1 16 false; mkTok 31 """a\\""" 1 32 false; mkTok 6 ")" 1 38 false; mkTok 14 "zchar[" 1 40 false; mkTok 30 "42" 1 46 false; mkTok 13 "]" 1 49 false; mkTok 42 "float" 1 50 false; mkTok 5 "@calculatedFrom(" 1 56 false; mkTok 31 """a\""b""" 1 72 false; mkTok 6 ")" 1 80 false; mkTok 43 (string_of_bytes [96; 10; 96]%N) 1 82 false; mkTok 40 "," 2 2 false; mkTok 3 "}" 3 4 false; mkTok 37 "MetaData" 3 6 false; mkTok 42 "o" 3 15 false; mkTok 2 "{" 4 4 false; mkTok 24 "int8" 5 0 false; mkTok 42 "BodyLength" 6 0 false; mkTok 40 "," 6 10 false; mkTok 15 "string" 6 11 false; mkTok 42 "len" 6 18 false; mkTok 40 "," 6 22 false; mkTok 15 "string" 7 4 false; mkTok 42 "len" 7 11 false; mkTok 40 "," 7 15 false; mkTok 42 "float" 7 17 false; mkTok 42 "falsey" 7 23 false; mkTok 40 "," 7 30 false; mkTok 42 "T" 7 31 false; mkTok 42 "float" 7 33 false; mkTok 40 "," 8 4 false; mkTok 3 "}" 8 6 false; mkTok 37 "MetaData" 8 8 false; mkTok 42 "pack" 8 17 false; mkTok 2 "{" 8 22 false; mkTok 44 "/// triple" 8 24 true; mkTok 42 "charz" 9 0 false; mkTok 42 "o" 9 6 false; mkTok 43 "`// not a comment`" 10 0 false; mkTok 40 "," 10 19 false; mkTok 29 "float64" 10 21 false; mkTok 42 "f32a" 10 29 false; mkTok 43 (string_of_bytes [96; 116; 97; 98; 9; 104; 101; 114; 101; 96]%N) 10 34 false; mkTok 40 "," 10 46 false; mkTok 26 "int32" 10 48 false; mkTok 42 "u8x" 10 55 false; mkTok 43 "`// not a comment`" 10 60 false; mkTok 40 "," 10 79 false; mkTok 12 "char[" 10 80 false; mkTok 30 "10" 10 85 false; mkTok 13 "]" 10 88 false; mkTok 42 "a1" 11 0 false; mkTok 40 "," 12 0 false; mkTok 28 "float32" 12 2 false; mkTok 42 "options1" 12 10 false; mkTok 40 "," 12 20 false; mkTok 3 "}" 13 0 false; mkTok 44 "// `tick` ""quote"" 'q'" 13 2 true; mkTok 0 "<EOF>" 13 23 false] (mkPacket (mkPtok 34 "root" 1 0 0) (Some (mkPtok 3 "}" 13 0 60)) [(DPacket (mkPacketDef (mkSpan (mkPtok 34 "root" 1 0 0) (mkPtok 3 "}" 3 4 16)) (Some (mkPtok 34 "root" 1 0 0)) (mkPtok 35 "packet" 1 5 1) (mkPtok 42 "x" 1 12 2) (mkPtok 2 "{" 1 14 3) [(mkFieldWithAttr (mkSpan (mkPtok 5 "@calculatedFrom(" 1 16 4) (mkPtok 40 "," 2 2 15)) [(FACalculatedFrom (mkSpan (mkPtok 5 "@calculatedFrom(" 1 16 4) (mkPtok 6 ")" 1 38 6)) (mkCalculatedFrom (mkSpan (mkPtok 5 "@calculatedFrom(" 1 16 4) (mkPtok 6 ")" 1 38 6)) (mkPtok 5 "@calculatedFrom(" 1 16 4) (mkPtok 31 """a\\""" 1 32 5) (mkPtok 6 ")" 1 38 6)))] (CheckSumField (mkSpan (mkPtok 14 "zchar[" 1 40 7) (mkPtok 40 "," 2 2 15)) (mkChecksumFieldDecl (mkSpan (mkPtok 14 "zchar[" 1 40 7) (mkPtok 40 "," 2 2 15)) (Some (TyFixed (mkSpan (mkPtok 14 "zchar[" 1 40 7) (mkPtok 13 "]" 1 49 9)) (mkFixedString (mkSpan (mkPtok 14 "zchar[" 1 40 7) (mkPtok 13 "]" 1 49 9)) (mkPtok 14 "zchar[" 1 40 7) (mkPtok 30 "42" 1 46 8) (mkPtok 13 "]" 1 49 9)))) (mkPtok 42 "float" 1 50 10) (mkCalculatedFrom (mkSpan (mkPtok 5 "@calculatedFrom(" 1 56 11) (mkPtok 6 ")" 1 80 13)) (mkPtok 5 "@calculatedFrom(" 1 56 11) (mkPtok 31 """a\""b""" 1 72 12) (mkPtok 6 ")" 1 80 13)) (Some (mkPtok 43 (string_of_bytes [96; 10; 96]%N) 1 82 14)) (mkPtok 40 "," 2 2 15))))] (mkPtok 3 "}" 3 4 16))); (DMeta (mkMetaDef (mkSpan (mkPtok 37 "MetaData" 3 6 17) (mkPtok 3 "}" 8 6 35)) (mkPtok 37 "MetaData" 3 6 17) (mkPtok 42 "o" 3 15 18) (mkPtok 2 "{" 4 4 19) [(MIDecl (mkMetaDecl (mkSpan (mkPtok 24 "int8" 5 0 20) (mkPtok 40 "," 6 10 22)) (TyBasic (mkSpan (mkPtok 24 "int8" 5 0 20) (mkPtok 24 "int8" 5 0 20)) (mkBasicType (mkSpan (mkPtok 24 "int8" 5 0 20) (mkPtok 24 "int8" 5 0 20)) (mkPtok 24 "int8" 5 0 20))) (mkPtok 42 "BodyLength" 6 0 21) None (mkPtok 40 "," 6 10 22))); (MIDecl (mkMetaDecl (mkSpan (mkPtok 15 "string" 6 11 23) (mkPtok 40 "," 6 22 25)) (TyDynamic (mkSpan (mkPtok 15 "string" 6 11 23) (mkPtok 15 "string" 6 11 23)) (mkDynamicString (mkSpan (mkPtok 15 "string" 6 11 23) (mkPtok 15 "string" 6 11 23)) (mkPtok 15 "string" 6 11 23))) (mkPtok 42 "len" 6 18 24) None (mkPtok 40 "," 6 22 25))); (MIDecl (mkMetaDecl (mkSpan (mkPtok 15 "string" 7 4 26) (mkPtok 40 "," 7 15 28)) (TyDynamic (mkSpan (mkPtok 15 "string" 7 4 26) (mkPtok 15 "string" 7 4 26)) (mkDynamicString (mkSpan (mkPtok 15 "string" 7 4 26) (mkPtok 15 "string" 7 4 26)) (mkPtok 15 "string" 7 4 26))) (mkPtok 42 "len" 7 11 27) None (mkPtok 40 "," 7 15 28))); (MIRef (mkRefMetaDecl (mkSpan (mkPtok 42 "float" 7 17 29) (mkPtok 40 "," 7 30 31)) (mkPtok 42 "float" 7 17 29) (mkPtok 42 "falsey" 7 23 30) None (mkPtok 40 "," 7 30 31))); (MIRef (mkRefMetaDecl (mkSpan (mkPtok 42 "T" 7 31 32) (mkPtok 40 "," 8 4 34)) (mkPtok 42 "T" 7 31 32) (mkPtok 42 "float" 7 33 33) None (mkPtok 40 "," 8 4 34)))] (mkPtok 3 "}" 8 6 35))); (DMeta (mkMetaDef (mkSpan (mkPtok 37 "MetaData" 8 8 36) (mkPtok 3 "}" 13 0 60)) (mkPtok 37 "MetaData" 8 8 36) (mkPtok 42 "pack" 8 17 37) (mkPtok 2 "{" 8 22 38) [(MIRef (mkRefMetaDecl (mkSpan (mkPtok 42 "charz" 9 0 40) (mkPtok 40 "," 10 19 43)) (mkPtok 42 "charz" 9 0 40) (mkPtok 42 "o" 9 6 41) (Some (mkPtok 43 "`// not a comment`" 10 0 42)) (mkPtok 40 "," 10 19 43))); (MIDecl (mkMetaDecl (mkSpan (mkPtok 29 "float64" 10 21 44) (mkPtok 40 "," 10 46 47)) (TyBasic (mkSpan (mkPtok 29 "float64" 10 21 44) (mkPtok 29 "float64" 10 21 44)) (mkBasicType (mkSpan (mkPtok 29 "float64" 10 21 44) (mkPtok 29 "float64" 10 21 44)) (mkPtok 29 "float64" 10 21 44))) (mkPtok 42 "f32a" 10 29 45) (Some (mkPtok 43 (string_of_bytes [96; 116; 97; 98; 9; 104; 101; 114; 101; 96]%N) 10 34 46)) (mkPtok 40 "," 10 46 47))); (MIDecl (mkMetaDecl (mkSpan (mkPtok 26 "int32" 10 48 48) (mkPtok 40 "," 10 79 51)) (TyBasic (mkSpan (mkPtok 26 "int32" 10 48 48) (mkPtok 26 "int32" 10 48 48)) (mkBasicType (mkSpan (mkPtok 26 "int32" 10 48 48) (mkPtok 26 "int32" 10 48 48)) (mkPtok 26 "int32" 10 48 48))) (mkPtok 42 "u8x" 10 55 49) (Some (mkPtok 43 "`// not a comment`" 10 60 50)) (mkPtok 40 "," 10 79 51))); (MIDecl (mkMetaDecl (mkSpan (mkPtok 12 "char[" 10 80 52) (mkPtok 40 "," 12 0 56)) (TyFixed (mkSpan (mkPtok 12 "char[" 10 80 52) (mkPtok 13 "]" 10 88 54)) (mkFixedString (mkSpan (mkPtok 12 "char[" 10 80 52) (mkPtok 13 "]" 10 88 54)) (mkPtok 12 "char[" 10 80 52) (mkPtok 30 "10" 10 85 53) (mkPtok 13 "]" 10 88 54))) (mkPtok 42 "a1" 11 0 55) None (mkPtok 40 "," 12 0 56))); (MIDecl (mkMetaDecl (mkSpan (mkPtok 28 "float32" 12 2 57) (mkPtok 40 "," 12 20 59)) (TyBasic (mkSpan (mkPtok 28 "float32" 12 2 57) (mkPtok 28 "float32" 12 2 57)) (mkBasicType (mkSpan (mkPtok 28 "float32" 12 2 57) (mkPtok 28 "float32" 12 2 57)) (mkPtok 28 "float32" 12 2 57))) (mkPtok 42 "options1" 12 10 58) None (mkPtok 40 "," 12 20 59)))] (mkPtok 3 "}" 13 0 60)))])).
-Eval vm_compute in ("<<<M86>>>" ++ check (runes_of_ascii "
-")).
-Eval vm_compute in ("<<<M96>>>" ++ check (runes_of_ascii "options
-    {
-    u8x =zchar[ 42 ] ;
-roots = """ ++ [233]%N ++ runes_of_ascii "t" ++ [233]%N ++ runes_of_ascii """	; calculatedFrom
-= '0' As =
-    ""packet"" ; } options	{falsey=  10
-    ; A=
-// c
-// packet A { u8 x, }
-'\x00' ; leftPad// c
-=	""" ++ [233]%N ++ runes_of_ascii "t" ++ [233]%N ++ runes_of_ascii """
-    ;
-    crc
-//	t
-// c
-= u16
-// `tick` ""quote"" 'q'
-// @lengthOf(
-;As
-= 255 } /// triple")).
-Eval vm_compute in ("<<<M106>>>" ++ check (runes_of_ascii "
-options {
-a1/// triple
-=""1""
-;
-trueish	=  i64 ; stringy=""" ++ [128512]%N ++ runes_of_ascii """
-; u8x
-= 255 ;
-u128
-=
-""`tick`""; }
-
-")).
-Eval vm_compute in ("<<<M116>>>" ++ check (runes_of_ascii "MetaData crc { uint8x float
-,}
-// @lengthOf(
-")).
-Eval vm_compute in ("<<<M126>>>" ++ check (runes_of_ascii "root
-    packet stringy{ // trailing space 
-@calculatedFrom(
-""" ++ [28040; 24687]%N ++ runes_of_ascii """ ) repeat
-Foo {float64	i64_
-    @lengthOf(Z9_ ),	}
-    ,	repeat // `tick` ""quote"" 'q'
-lengthOf {
-falsey
-    { uint16 len//x
-,	} , Packet uint8x `a\`,} , @calculatedFrom(""" ++ [128512]%N ++ runes_of_ascii """)  string MetaDataX	`" ++ [233]%N ++ runes_of_ascii "`  ,} packet
-chars { @leftPad ( '0'
-    )i64 trueish
-@lengthOf( Z9_  )
-    ,
-}
-")).
-Eval vm_compute in ("<<<M136>>>" ++ check (runes_of_ascii "  packet x_y_z	{ @tag( // c
-00
-//x
-// packet A { u8 x, }
-)
-@tag(// " ++ [27880; 37322]%N ++ runes_of_ascii "
-7 ) @leftPad ( ) int16 _x @lengthOf( u ) `it's` // `tick` ""quote"" 'q'
-, }
-")).
-Eval vm_compute in ("<<<M146>>>" ++ check (runes_of_ascii "packet Logon {
-    stringy
-crc	`crlf
-line`
-, T
-@calculatedFrom( ""a\""b""
-    ) // packet A { u8 x, }
-`u8 x,` // " ++ [27880; 37322]%N ++ runes_of_ascii "
-, }  options {	leftPad =  '\x00'}
-")).
-Eval vm_compute in ("<<<T146>>>" ++ terms [mkTok 35 "packet" 1 0 false; mkTok 42 "Logon" 1 7 false; mkTok 2 "{" 1 13 false; mkTok 42 "stringy" 2 4 false; mkTok 42 "crc" 3 0 false; mkTok 43 (string_of_bytes [96; 99; 114; 108; 102; 13; 10; 108; 105; 110; 101; 96]%N) 3 4 false; mkTok 40 "," 5 0 false; mkTok 42 "T" 5 2 false; mkTok 5 "@calculatedFrom(" 6 0 false; mkTok 31 """a\""b""" 6 17 false; mkTok 6 ")" 7 4 false; mkTok 44 "// packet A { u8 x, }" 7 6 true; mkTok 43 "`u8 x,`" 8 0 false; mkTok 44 (string_of_bytes [47; 47; 32; 230; 179; 168; 233; 135; 138]%N) 8 8 true; mkTok 40 "," 9 0 false; mkTok 3 "}" 9 2 false; mkTok 1 "options" 9 5 false; mkTok 2 "{" 9 13 false; mkTok 42 "leftPad" 9 15 false; mkTok 4 "=" 9 23 false; mkTok 33 "'\x00'" 9 26 false; mkTok 3 "}" 9 32 false; mkTok 0 "<EOF>" 10 0 false] (mkPacket (mkPtok 35 "packet" 1 0 0) (Some (mkPtok 3 "}" 9 32 21)) [(DPacket (mkPacketDef (mkSpan (mkPtok 35 "packet" 1 0 0) (mkPtok 3 "}" 9 2 15)) None (mkPtok 35 "packet" 1 0 0) (mkPtok 42 "Logon" 1 7 1) (mkPtok 2 "{" 1 13 2) [(mkFieldWithAttr (mkSpan (mkPtok 42 "stringy" 2 4 3) (mkPtok 40 "," 5 0 6)) [] (ObjectField (mkSpan (mkPtok 42 "stringy" 2 4 3) (mkPtok 40 "," 5 0 6)) None (mkPtok 42 "stringy" 2 4 3) (Some (mkPtok 42 "crc" 3 0 4)) (Some (mkPtok 43 (string_of_bytes [96; 99; 114; 108; 102; 13; 10; 108; 105; 110; 101; 96]%N) 3 4 5)) (mkPtok 40 "," 5 0 6))); (mkFieldWithAttr (mkSpan (mkPtok 42 "T" 5 2 7) (mkPtok 40 "," 9 0 14)) [] (CheckSumField (mkSpan (mkPtok 42 "T" 5 2 7) (mkPtok 40 "," 9 0 14)) (mkChecksumFieldDecl (mkSpan (mkPtok 42 "T" 5 2 7) (mkPtok 40 "," 9 0 14)) None (mkPtok 42 "T" 5 2 7) (mkCalculatedFrom (mkSpan (mkPtok 5 "@calculatedFrom(" 6 0 8) (mkPtok 6 ")" 7 4 10)) (mkPtok 5 "@calculatedFrom(" 6 0 8) (mkPtok 31 """a\""b""" 6 17 9) (mkPtok 6 ")" 7 4 10)) (Some (mkPtok 43 "`u8 x,`" 8 0 12)) (mkPtok 40 "," 9 0 14))))] (mkPtok 3 "}" 9 2 15))); (DOption (mkOptionDef (mkSpan (mkPtok 1 "options" 9 5 16) (mkPtok 3 "}" 9 32 21)) (mkPtok 1 "options" 9 5 16) (mkPtok 2 "{" 9 13 17) [(mkOptionDecl (mkSpan (mkPtok 42 "leftPad" 9 15 18) (mkPtok 33 "'\x00'" 9 26 20)) (mkPtok 42 "leftPad" 9 15 18) (mkPtok 4 "=" 9 23 19) (VPaddingChar (mkSpan (mkPtok 33 "'\x00'" 9 26 20) (mkPtok 33 "'\x00'" 9 26 20)) (mkPtok 33 "'\x00'" 9 26 20)) None)] (mkPtok 3 "}" 9 32 21)))])).
-Eval vm_compute in ("<<<M156>>>" ++ check (runes_of_ascii "packet	crc
-    { }")).
-Eval vm_compute in ("<<<M166>>>" ++ check (runes_of_ascii "MetaData MetaDataX
-    { i8i8 roots
-,	zchar[	65535
-    ]rootA
-`// not a comment`, // a // b
-x_y_z  leftPad
-    //x
-    `u8 x,`, char[] stringy
-// c
-//x
-`it's` ,
-} // packet A { u8 x, }
-packet
-    Foo {
-string	lengthOf , i32 packetx@lengthOf( asx ) `{ , }`
-    ,
-repeat falsey`two words`, char[] roots@calculatedFrom(""" ++ [28040; 24687]%N ++ runes_of_ascii """ // " ++ [128512]%N ++ runes_of_ascii " emoji
-), //
-leftPad// @lengthOf(
-@calculatedFrom( """ ++ [28040; 24687]%N ++ runes_of_ascii """ )`" ++ [233]%N ++ runes_of_ascii "` ,
-    @tag( 42
-)
-zchar[
-65535 ]
-    As @lengthOf( a1
-)
-`doc`
-, } root packet charz{
-    @tag(
-    4294967296
-) string options1
-    `tab	here`
-    // @lengthOf(
-    , }packet leftPad	{ } packet metadata { //	t
-i32	BodyLength
-    @calculatedFrom(
-    ""it's"" ) `say ""hi""`,
-@rightPad //
-(	)
-    // " ++ [128512]%N ++ runes_of_ascii " emoji
-    chars//x
+Eval vm_compute in ("<<<M26>>>" ++ check (runes_of_ascii "packet len
 {
-repeat
-    falsey	{ uint64 tag @lengthOf(
-len )
-, char[ 42]packetx @calculatedFrom(
-//x
-// a // b
-""abc"" )
-, } , Header { zchar[ 00 //x
-] charz
-@calculatedFrom( ""x y"" ) // trailing space 
-, uint8 calculatedFrom @calculatedFrom( ""\n"" // c
-) , trueish `" ++ [28040; 24687; 31867; 22411]%N ++ runes_of_ascii "` , string_ // @lengthOf(
-@calculatedFrom( ""// no comment"" ) // c
-`it's` ,} , string crc ,
-}  , // " ++ [128512]%N ++ runes_of_ascii " emoji
-@calculatedFrom( ""1"" )
-    @calculatedFrom(	""" ++ [28040; 24687]%N ++ runes_of_ascii """
-    // " ++ [27880; 37322]%N ++ runes_of_ascii "
-    ) @tag(7
-// trailing space 
-//
-) i8
-Foo
-// @lengthOf(
-// a // b
-, i8 a1
-//
-//x
-@calculatedFrom( ""{,}"" ) ``
-, repeat falsey	{
-o // c
-@calculatedFrom( ""abc"" ) `
-`  , zchar[42 ] matchKey , }	, i64 As ,
-//	t
-// `tick` ""quote"" 'q'
-repeat As  , repeat
-    int64 string_
-, }
-//	t
+} MetaData crc	{ }")).
+Eval vm_compute in ("<<<M36>>>" ++ check (runes_of_ascii "options { MetaDataX= 0 matchKey = '0' ; BodyLength = '\x00' ;packetx
+=char[]	;
+    charz =  '\x00' }
 ")).
-Eval vm_compute in ("<<<M176>>>" ++ check (runes_of_ascii "packet
-body { // @lengthOf(
+Eval vm_compute in ("<<<M46>>>" ++ check (runes_of_ascii "MetaData metadata {u8
+tag
+    ,
 }")).
-Eval vm_compute in ("<<<M186>>>" ++ check (runes_of_ascii "  
-")).
-Eval vm_compute in ("<<<M196>>>" ++ check (runes_of_ascii "MetaData  msg_type	{ Packet
-// @lengthOf(
-// trailing space 
-int , char[3 ] Foo`// not a comment`
-    // `tick` ""quote"" 'q'
-    ,
-zchar[ 7
-    ]
-uint8x,
-leftPad crc `
-`, }")).
-Eval vm_compute in ("<<<M206>>>" ++ check (runes_of_ascii "
-root packet
-    tag { f64
-len ,
-char[
-    4294967296 ] A@calculatedFrom( """"  )`it's`, @tag( 65535
-    )
-match charz// a // b
-as tag	{
-    [ ""// no comment"" , """ ++ [128512]%N ++ runes_of_ascii """ ]:
-zchar	,
-    ""\n"":falsey  , },} packet float {f32a { repeat  packetx{
-    //x
-    char[ 255 ] int `it's`  ,} , uint32 x_y_z @lengthOf( pack ) // " ++ [27880; 37322]%N ++ runes_of_ascii "
-,}, } // `tick` ""quote"" 'q'")).
-Eval vm_compute in ("<<<M216>>>" ++ check (runes_of_ascii "
-")).
-Eval vm_compute in ("<<<T216>>>" ++ terms [mkTok 0 "<EOF>" 2 0 false] (mkPacket (mkPtok 0 "<EOF>" 2 0 0) None [])).
-Eval vm_compute in ("<<<M226>>>" ++ check (runes_of_ascii "options{ // " ++ [128512]%N ++ runes_of_ascii " emoji
-x =i8 BodyLength	=	'\x00'	;
-options1 // a // b
-=// c
-zchar[
-    42] ; msg_type = ""a	b""  x_y_z =// a // b
-int64
-; } //x
-options
-{ pack =
-""a\\""matchKey  =
-    true Packet =""abc"" //	t
-falsey =
-'\x00'
-; }  root packet charz { body
-    `doc` , } // c")).
-Eval vm_compute in ("<<<M236>>>" ++ check (runes_of_ascii "
-root packet
-rootA { } root packet
-// a // b
-// trailing space 
-_x // " ++ [27880; 37322]%N ++ runes_of_ascii "
-{
-    i64_, // a // b
-} MetaData options1{ // `tick` ""quote"" 'q'
-a1 float `crlf
-line`
+Eval vm_compute in ("<<<M56>>>" ++ check (runes_of_ascii "packet MetaDataX {i8
+u128
+    @lengthOf( Z9_
+)  `line1
+line2`  ,@calculatedFrom(
+""1"") match Foo as body
+    {
+42 :
+lengthOf ,
+""`tick`"" : trueish, }, @tag(10 ) @leftPad ( ) char[] T
+    @lengthOf(
+body )	`" ++ [28040; 24687; 31867; 22411]%N ++ runes_of_ascii "`,
+zchar[ 0123456789 ]matchKey `{ , }`
 ,
+    }options {
     u8x
-falsey // " ++ [128512]%N ++ runes_of_ascii " emoji
-`" ++ [233]%N ++ runes_of_ascii "`,
-f32a MetaDataX,int64 u8x, } packet f32a {}
-")).
-Eval vm_compute in ("<<<M246>>>" ++ check (runes_of_ascii "packet Foo //	t
-{ match
-    // a // b
-    i64_ //x
-as
-x_y_z {65535:  BodyLength
-,
-[3, ""CRC32"" ]
-:u
-, 255:
-T ,[ ""x y""]	:leftPad ,0123456789: As ,
-    } ,
-    zchar[	1
-    ]int
-, } packet
-float
-    { uint16
-Packet	,}")).
-Eval vm_compute in ("<<<M256>>>" ++ check (runes_of_ascii "packet // c
-Z9_ {
-As
-    x
-, @rightPad ( ' ') @lengthOf( Header) @rightPad(  ' '
-)match u as  string_{ ""a	b""
-    : Pad
+= true ; zchar=int32 ; o
+    =
+""a\\""
+; body
+=false; } root
+    packet
+//	t
+// a // b
+rootA
+    { @tag(
+    3) @tag(4294967296
+)@lengthOf( // @lengthOf(
+f32a) _x
+    Foo `say ""hi""` , } packet Foo
     // trailing space 
-    ,1: T , [ """" , 255, ""abc""
-, 7
-    //	t
-    ] :
-BodyLength ,  },match falsey
-as  metadata{ 42: float ,
-    // `tick` ""quote"" 'q'
-    } , match lengthOf
-as As {1
-:
-As, [	"""" ,	""a\\"" ,
-""{,}"" , ""it's"" ,
-    //
-    42,""a\\"" , 0 // trailing space 
-, 3  ]  : f32a, } , // packet A { u8 x, }
-repeat float64 roots ,	}
-")).
-Eval vm_compute in ("<<<M266>>>" ++ check (runes_of_ascii "packet
-Pad // " ++ [27880; 37322]%N ++ runes_of_ascii "
-{ @tag(	65535 )repeat char[
-    //	t
-    4294967296 ] o
-    `u8 x,`  ,
-@calculatedFrom(""x y"" )
-metadata // c
-@lengthOf(repeatCount )`tab	here`	,} packet u128 {
-// packet A { u8 x, }
-// " ++ [128512]%N ++ runes_of_ascii " emoji
-repeat // " ++ [128512]%N ++ runes_of_ascii " emoji
+    {@tag( 7 ) @lengthOf( u128
+)u16 u128@calculatedFrom(	""a\""b""
+) // " ++ [128512]%N ++ runes_of_ascii " emoji
+`u8 x,`
+,
+    //x
+    @lengthOf(
+    Pad ) @lengthOf(
+    f32a )
+@calculatedFrom( """ ++ [28040; 24687]%N ++ runes_of_ascii """ )
+uint16 a1	, @leftPad
+(' ' )
+A
+    {	int64
+Pad
+`crlf
+line` , uint64 Z9_ @calculatedFrom(""a	b"")
+,
+    // a // b
+    repeat options1
+,
+char[// " ++ [128512]%N ++ runes_of_ascii " emoji
+4294967296 ]falsey , } ,
 zchar[
-10 ]_x// " ++ [27880; 37322]%N ++ runes_of_ascii "
-, /// triple
+    65535 ]
+chars	``,
+    @calculatedFrom(
+    """"
+// " ++ [27880; 37322]%N ++ runes_of_ascii "
+// " ++ [27880; 37322]%N ++ runes_of_ascii "
+)
+    @calculatedFrom( ""1""
+) uint8 a1
+,//x
+}
+")).
+Eval vm_compute in ("<<<M66>>>" ++ check (runes_of_ascii "packet
+// @lengthOf(
+// c
+calculatedFrom {match	_x as MetaDataX
+{ ""// no comment""  : T
+, }	, } packet options1 {
+} packet Logon
+    {
+    f32 falsey @calculatedFrom(
+""" ++ [128512]%N ++ runes_of_ascii """ ), }
+// packet A { u8 x, }
+")).
+Eval vm_compute in ("<<<M76>>>" ++ check (runes_of_ascii "options {Packet
+= true ; f32a = u8
+    ; }packet
+    // `tick` ""quote"" 'q'
+    matchKey	{ @lengthOf( /// triple
+A
+)packetx ``
+    ,
+    string //
+BodyLength ,@tag( 42 ) float32
+Z9_
+@calculatedFrom(	""\n"" )
+`" ++ [28040; 24687; 31867; 22411]%N ++ runes_of_ascii "` , repeat zchar[	0123456789
+    // c
+    ]  chars ,int16 charz@lengthOf( body
+)
+`" ++ [233]%N ++ runes_of_ascii "` , repeat u8x msg_type
+, }
+")).
+Eval vm_compute in ("<<<T76>>>" ++ terms [mkTok 1 "options" 1 0 false; mkTok 2 "{" 1 8 false; mkTok 42 "Packet" 1 9 false; mkTok 4 "=" 2 0 false; mkTok 10 "true" 2 2 false; mkTok 41 ";" 2 7 false; mkTok 42 "f32a" 2 9 false; mkTok 4 "=" 2 14 false; mkTok 20 "u8" 2 16 false; mkTok 41 ";" 3 4 false; mkTok 3 "}" 3 6 false; mkTok 35 "packet" 3 7 false; mkTok 44 "// `tick` ""quote"" 'q'" 4 4 true; mkTok 42 "matchKey" 5 4 false; mkTok 2 "{" 5 13 false; mkTok 7 "@lengthOf(" 5 15 false; mkTok 44 "/// triple" 5 26 true; mkTok 42 "A" 6 0 false; mkTok 6 ")" 7 0 false; mkTok 42 "packetx" 7 1 false; mkTok 43 "``" 7 9 false; mkTok 40 "," 8 4 false; mkTok 15 "string" 9 4 false; mkTok 44 "//" 9 11 true; mkTok 42 "BodyLength" 10 0 false; mkTok 40 "," 10 11 false; mkTok 9 "@tag(" 10 12 false; mkTok 30 "42" 10 18 false; mkTok 6 ")" 10 21 false; mkTok 28 "float32" 10 23 false; mkTok 42 "Z9_" 11 0 false; mkTok 5 "@calculatedFrom(" 12 0 false; mkTok 31 """\n""" 12 17 false; mkTok 6 ")" 12 22 false; mkTok 43 (string_of_bytes [96; 230; 182; 136; 230; 129; 175; 231; 177; 187; 229; 158; 139; 96]%N) 13 0 false; mkTok 40 "," 13 7 false; mkTok 36 "repeat" 13 9 false; mkTok 14 "zchar[" 13 16 false; mkTok 30 "0123456789" 13 23 false; mkTok 44 "// c" 14 4 true; mkTok 13 "]" 15 4 false; mkTok 42 "chars" 15 7 false; mkTok 40 "," 15 13 false; mkTok 25 "int16" 15 14 false; mkTok 42 "charz" 15 20 false; mkTok 7 "@lengthOf(" 15 25 false; mkTok 42 "body" 15 36 false; mkTok 6 ")" 16 0 false; mkTok 43 (string_of_bytes [96; 195; 169; 96]%N) 17 0 false; mkTok 40 "," 17 4 false; mkTok 36 "repeat" 17 6 false; mkTok 42 "u8x" 17 13 false; mkTok 42 "msg_type" 17 17 false; mkTok 40 "," 18 0 false; mkTok 3 "}" 18 2 false; mkTok 0 "<EOF>" 19 0 false] (mkPacket (mkPtok 1 "options" 1 0 0) (Some (mkPtok 3 "}" 18 2 54)) [(DOption (mkOptionDef (mkSpan (mkPtok 1 "options" 1 0 0) (mkPtok 3 "}" 3 6 10)) (mkPtok 1 "options" 1 0 0) (mkPtok 2 "{" 1 8 1) [(mkOptionDecl (mkSpan (mkPtok 42 "Packet" 1 9 2) (mkPtok 41 ";" 2 7 5)) (mkPtok 42 "Packet" 1 9 2) (mkPtok 4 "=" 2 0 3) (VTrue (mkSpan (mkPtok 10 "true" 2 2 4) (mkPtok 10 "true" 2 2 4)) (mkPtok 10 "true" 2 2 4)) (Some (mkPtok 41 ";" 2 7 5))); (mkOptionDecl (mkSpan (mkPtok 42 "f32a" 2 9 6) (mkPtok 41 ";" 3 4 9)) (mkPtok 42 "f32a" 2 9 6) (mkPtok 4 "=" 2 14 7) (VType (mkSpan (mkPtok 20 "u8" 2 16 8) (mkPtok 20 "u8" 2 16 8)) (TyBasic (mkSpan (mkPtok 20 "u8" 2 16 8) (mkPtok 20 "u8" 2 16 8)) (mkBasicType (mkSpan (mkPtok 20 "u8" 2 16 8) (mkPtok 20 "u8" 2 16 8)) (mkPtok 20 "u8" 2 16 8)))) (Some (mkPtok 41 ";" 3 4 9)))] (mkPtok 3 "}" 3 6 10))); (DPacket (mkPacketDef (mkSpan (mkPtok 35 "packet" 3 7 11) (mkPtok 3 "}" 18 2 54)) None (mkPtok 35 "packet" 3 7 11) (mkPtok 42 "matchKey" 5 4 13) (mkPtok 2 "{" 5 13 14) [(mkFieldWithAttr (mkSpan (mkPtok 7 "@lengthOf(" 5 15 15) (mkPtok 40 "," 8 4 21)) [(FALengthOf (mkSpan (mkPtok 7 "@lengthOf(" 5 15 15) (mkPtok 6 ")" 7 0 18)) (mkLengthOf (mkSpan (mkPtok 7 "@lengthOf(" 5 15 15) (mkPtok 6 ")" 7 0 18)) (mkPtok 7 "@lengthOf(" 5 15 15) (mkPtok 42 "A" 6 0 17) (mkPtok 6 ")" 7 0 18)))] (ObjectField (mkSpan (mkPtok 42 "packetx" 7 1 19) (mkPtok 40 "," 8 4 21)) None (mkPtok 42 "packetx" 7 1 19) None (Some (mkPtok 43 "``" 7 9 20)) (mkPtok 40 "," 8 4 21))); (mkFieldWithAttr (mkSpan (mkPtok 15 "string" 9 4 22) (mkPtok 40 "," 10 11 25)) [] (MetaField (mkSpan (mkPtok 15 "string" 9 4 22) (mkPtok 40 "," 10 11 25)) None (mkMetaDecl (mkSpan (mkPtok 15 "string" 9 4 22) (mkPtok 40 "," 10 11 25)) (TyDynamic (mkSpan (mkPtok 15 "string" 9 4 22) (mkPtok 15 "string" 9 4 22)) (mkDynamicString (mkSpan (mkPtok 15 "string" 9 4 22) (mkPtok 15 "string" 9 4 22)) (mkPtok 15 "string" 9 4 22))) (mkPtok 42 "BodyLength" 10 0 24) None (mkPtok 40 "," 10 11 25)))); (mkFieldWithAttr (mkSpan (mkPtok 9 "@tag(" 10 12 26) (mkPtok 40 "," 13 7 35)) [(FATag (mkSpan (mkPtok 9 "@tag(" 10 12 26) (mkPtok 6 ")" 10 21 28)) (mkTagAttr (mkSpan (mkPtok 9 "@tag(" 10 12 26) (mkPtok 6 ")" 10 21 28)) (mkPtok 9 "@tag(" 10 12 26) (mkPtok 30 "42" 10 18 27) (mkPtok 6 ")" 10 21 28)))] (CheckSumField (mkSpan (mkPtok 28 "float32" 10 23 29) (mkPtok 40 "," 13 7 35)) (mkChecksumFieldDecl (mkSpan (mkPtok 28 "float32" 10 23 29) (mkPtok 40 "," 13 7 35)) (Some (TyBasic (mkSpan (mkPtok 28 "float32" 10 23 29) (mkPtok 28 "float32" 10 23 29)) (mkBasicType (mkSpan (mkPtok 28 "float32" 10 23 29) (mkPtok 28 "float32" 10 23 29)) (mkPtok 28 "float32" 10 23 29)))) (mkPtok 42 "Z9_" 11 0 30) (mkCalculatedFrom (mkSpan (mkPtok 5 "@calculatedFrom(" 12 0 31) (mkPtok 6 ")" 12 22 33)) (mkPtok 5 "@calculatedFrom(" 12 0 31) (mkPtok 31 """\n""" 12 17 32) (mkPtok 6 ")" 12 22 33)) (Some (mkPtok 43 (string_of_bytes [96; 230; 182; 136; 230; 129; 175; 231; 177; 187; 229; 158; 139; 96]%N) 13 0 34)) (mkPtok 40 "," 13 7 35)))); (mkFieldWithAttr (mkSpan (mkPtok 36 "repeat" 13 9 36) (mkPtok 40 "," 15 13 42)) [] (MetaField (mkSpan (mkPtok 36 "repeat" 13 9 36) (mkPtok 40 "," 15 13 42)) (Some (mkPtok 36 "repeat" 13 9 36)) (mkMetaDecl (mkSpan (mkPtok 14 "zchar[" 13 16 37) (mkPtok 40 "," 15 13 42)) (TyFixed (mkSpan (mkPtok 14 "zchar[" 13 16 37) (mkPtok 13 "]" 15 4 40)) (mkFixedString (mkSpan (mkPtok 14 "zchar[" 13 16 37) (mkPtok 13 "]" 15 4 40)) (mkPtok 14 "zchar[" 13 16 37) (mkPtok 30 "0123456789" 13 23 38) (mkPtok 13 "]" 15 4 40))) (mkPtok 42 "chars" 15 7 41) None (mkPtok 40 "," 15 13 42)))); (mkFieldWithAttr (mkSpan (mkPtok 25 "int16" 15 14 43) (mkPtok 40 "," 17 4 49)) [] (LengthField (mkSpan (mkPtok 25 "int16" 15 14 43) (mkPtok 40 "," 17 4 49)) (mkLengthFieldDecl (mkSpan (mkPtok 25 "int16" 15 14 43) (mkPtok 40 "," 17 4 49)) (Some (TyBasic (mkSpan (mkPtok 25 "int16" 15 14 43) (mkPtok 25 "int16" 15 14 43)) (mkBasicType (mkSpan (mkPtok 25 "int16" 15 14 43) (mkPtok 25 "int16" 15 14 43)) (mkPtok 25 "int16" 15 14 43)))) (mkPtok 42 "charz" 15 20 44) (mkLengthOf (mkSpan (mkPtok 7 "@lengthOf(" 15 25 45) (mkPtok 6 ")" 16 0 47)) (mkPtok 7 "@lengthOf(" 15 25 45) (mkPtok 42 "body" 15 36 46) (mkPtok 6 ")" 16 0 47)) (Some (mkPtok 43 (string_of_bytes [96; 195; 169; 96]%N) 17 0 48)) (mkPtok 40 "," 17 4 49)))); (mkFieldWithAttr (mkSpan (mkPtok 36 "repeat" 17 6 50) (mkPtok 40 "," 18 0 53)) [] (ObjectField (mkSpan (mkPtok 36 "repeat" 17 6 50) (mkPtok 40 "," 18 0 53)) (Some (mkPtok 36 "repeat" 17 6 50)) (mkPtok 42 "u8x" 17 13 51) (Some (mkPtok 42 "msg_type" 17 17 52)) None (mkPtok 40 "," 18 0 53)))] (mkPtok 3 "}" 18 2 54)))])).
+Eval vm_compute in ("<<<M86>>>" ++ check (runes_of_ascii "packet As {zchar[ 42
+    ] float @calculatedFrom( ""a\""b"" )
+    //	t
+    `{ , }` , // 50% %s
+@tag(
+    42 ) @rightPad ('0' )	@calculatedFrom( ""a\""b"") repeat int32 Header ,float @lengthOf(falsey  ) , @leftPad
+    ( ) uint32
+    options1
+@lengthOf(
+Pad)`a\` , }")).
+Eval vm_compute in ("<<<M96>>>" ++ check (runes_of_ascii "packet charz { lengthOf { roots
+{
+char[ 4294967296 ] rootA ``
+,} ,repeat u64 A  ``
+    , repeat  T
+, }  , }
+")).
+Eval vm_compute in ("<<<M106>>>" ++ check (runes_of_ascii "//	t
+root packet As
+// c
+// " ++ [128512]%N ++ runes_of_ascii " emoji
+{
+} options
+{ }
+")).
+Eval vm_compute in ("<<<M116>>>" ++ check (runes_of_ascii " 	 ")).
+Eval vm_compute in ("<<<M126>>>" ++ check (runes_of_ascii "packet int {
+@leftPad(
+    //x
+    '\x00'
+    ) @tag( 0
+    //
+    ) repeat char[ 1 ] Header ,@calculatedFrom( ""CRC32"" )
+@tag( // a // b
+65535 )
+    lengthOf
+    , match T as x// 50% %s
+{ 3 : float
+,[65535
+, ""x y"" ]: Pad, }
+, int32 f32a
+`a\` ,}// a // b
+packet zchar
+{ options1 ,
+@calculatedFrom( ""\" ++ [233]%N ++ runes_of_ascii """)	repeat
+    i32 u8x ,}	packet
+    f32a	{ // `tick` ""quote"" 'q'
+@calculatedFrom( ""x y""
+)
+    u32 _x `u8 x,`//x
+,	repeat char[] falsey, match msg_type as rootA {65535:  lengthOf,	}  ,}
+")).
+Eval vm_compute in ("<<<M136>>>" ++ check (runes_of_ascii "// a // b
+packet
+a1 { @calculatedFrom( ""packet"" )u16 x @lengthOf( u8x
+    ),@tag( 255 ) u32 a1 @calculatedFrom( """ ++ [128512]%N ++ runes_of_ascii """ )/// triple
+, repeat i8 T `it's`, asx , @rightPad('\x00' )	body { repeatCount
+    {i8 As // `tick` ""quote"" 'q'
+,	zchar[ 10 ]
+    asx
+`tab	here` , match
+    leftPad
+    as chars
+    {
+    [
+    """ ++ [128512]%N ++ runes_of_ascii """ ] :
+    repeatCount // c
+, 1	: matchKey , [
+    1
+,3
+// c
+// a // b
+] :
+    float
+[ 255 ] // c
+:
+// `tick` ""quote"" 'q'
+//	t
+msg_type [
+    3]
+    : repeatCount , // " ++ [128512]%N ++ runes_of_ascii " emoji
+}	,} // " ++ [128512]%N ++ runes_of_ascii " emoji
+,
+char[] string_`100% of %d`, // " ++ [27880; 37322]%N ++ runes_of_ascii "
+char[007] Pad
+// packet A { u8 x, }
+// @lengthOf(
+`line1
+line2` // `tick` ""quote"" 'q'
+, char[007 ] Pad `two words` , }, } 	 ")).
+Eval vm_compute in ("<<<M146>>>" ++ check (runes_of_ascii "  options{ }
+")).
+Eval vm_compute in ("<<<T146>>>" ++ terms [mkTok 1 "options" 1 2 false; mkTok 2 "{" 1 9 false; mkTok 3 "}" 1 11 false; mkTok 0 "<EOF>" 2 0 false] (mkPacket (mkPtok 1 "options" 1 2 0) (Some (mkPtok 3 "}" 1 11 2)) [(DOption (mkOptionDef (mkSpan (mkPtok 1 "options" 1 2 0) (mkPtok 3 "}" 1 11 2)) (mkPtok 1 "options" 1 2 0) (mkPtok 2 "{" 1 9 1) [] (mkPtok 3 "}" 1 11 2)))])).
+Eval vm_compute in ("<<<M156>>>" ++ check (runes_of_ascii "// " ++ [128512]%N ++ runes_of_ascii " emoji
+packet tag { @lengthOf( matchKey //	t
+)	zchar[
+    7
+    ] i8i8 ,@rightPad
+( //
+'0'	)
+    // " ++ [128512]%N ++ runes_of_ascii " emoji
+    int64//x
+i8i8
+,
+    zchar[	255 ] float ,
+}
+")).
+Eval vm_compute in ("<<<M166>>>" ++ check (runes_of_ascii "options {
+} root packet // packet A { u8 x, }
+chars { @tag( 1 )zchar[3 ] falsey `" ++ [233]%N ++ runes_of_ascii "`
+, } options{ o  =' '
+tag
+= char[]
+    ;float = ' ' ; }// a // b
+MetaData	zchar { BodyLength _x , }")).
+Eval vm_compute in ("<<<M176>>>" ++ check (runes_of_ascii "packet
+Z9_ { u32
+pack `crlf
+line` ,
+    /// triple
+    @lengthOf(len) u128 {match
+    x_y_z as  Logon  { 7 : pack ,1
+: int 4294967296// " ++ [27880; 37322]%N ++ runes_of_ascii "
+: rootA, 1 :
+f32a,
+[
+    """" , // 50% %s
+42	, ""\n"" ,
+// " ++ [128512]%N ++ runes_of_ascii " emoji
+// packet A { u8 x, }
+7
+, // c
+0 ,
+""// no comment"", 4294967296 ,
+""// no comment""
+] :
+    matchKey  ,
+},
+    // " ++ [27880; 37322]%N ++ runes_of_ascii "
+    match float
+as trueish // a // b
+{007 : packetx, 65535	: repeatCount} , repeat
+    // @lengthOf(
+    roots lengthOf
+, repeat
+i8 string_, } ,  i64
+    leftPad @lengthOf( msg_type ) , // a // b
+@tag(
+    // c
+    7 )zchar[ 7] f32a //	t
+@calculatedFrom(""\n"" ) , string falsey ,
+    // packet A { u8 x, }
+    repeat leftPad{ match matchKey // a // b
+as	repeatCount { ""\n"" :metadata  ,""x y""
+:Logon
+// " ++ [128512]%N ++ runes_of_ascii " emoji
+// " ++ [27880; 37322]%N ++ runes_of_ascii "
+, }
+    , }
+    , /// triple
+}
+")).
+Eval vm_compute in ("<<<M186>>>" ++ check (runes_of_ascii "root //x
+packet
+    charz //	t
+{ repeat
+zchar[ 65535
+]
+Packet ,} MetaData
+u128
+{string uint8x//
+, rootA
+_x , char[007
+    ] uint8x ,
+As A
+,Header u`line1
+line2` , rootA chars `100% of %d` ,}MetaData trueish{ uint8 Logon ,
+    // c
+    uint8 // `tick` ""quote"" 'q'
+float
+,//
+u/// triple
+As
+,/// triple
+falsey packetx
+//	t
+// " ++ [128512]%N ++ runes_of_ascii " emoji
+, i8i8
+    rootA,
+    i16 roots `
+` ,}")).
+Eval vm_compute in ("<<<M196>>>" ++ check (runes_of_ascii "packet x {
+    }packet repeatCount {
+    charz charz , }
+    // 50% %s
+    packet trueish{ }
+")).
+Eval vm_compute in ("<<<M206>>>" ++ check (runes_of_ascii "MetaData
+x {
+_x Z9_
+`u8 x,` ,
+Z9_ matchKey,
+    u128
+    // packet A { u8 x, }
+    roots, lengthOf matchKey
+    , char[3 // @lengthOf(
+] packetx `100% of %d`
+, char[
+    7 ]
+    // c
+    options1 `doc`  ,// 50% %s
 }
 options
-{ /// triple
-msg_type
-= true ;}packet tag {// c
-@tag(7 ) i32
-f32a @lengthOf( u8x)
-`two words`
+{ leftPad=' '} packet roots {float32 T
+    @lengthOf( int  )
+    `" ++ [233]%N ++ runes_of_ascii "` ,
+}packet
+rootA { }")).
+Eval vm_compute in ("<<<M216>>>" ++ check (runes_of_ascii "  packet
+asx { float @calculatedFrom( ""a\""b"" ) // packet A { u8 x, }
 ,
-string
-Foo  @lengthOf( Foo ) ,
-@rightPad(
-'0' ) match As as
-// @lengthOf(
-// `tick` ""quote"" 'q'
-crc // a // b
-{"""": float , //	t
-} , repeat i16 i8i8 , @rightPad/// triple
-(
-    '0' ) repeat u128
-    { i64 tag
-@calculatedFrom( """ ++ [28040; 24687]%N ++ runes_of_ascii """ ) ,i8i8
-@calculatedFrom( // " ++ [27880; 37322]%N ++ runes_of_ascii "
-""{,}""
-)`it's` , repeat string
-    rootA /// triple
-, }, repeat string
-chars,
-    asx, match calculatedFrom as
-calculatedFrom {
-    ""a\""b"" :  Logon ""a	b"" : asx } , char zchar @calculatedFrom( ""1""
-    )
-    `say ""hi""`
-    ,  }
-")).
-Eval vm_compute in ("<<<M276>>>" ++ check (runes_of_ascii "
-")).
-Eval vm_compute in ("<<<M286>>>" ++ check (runes_of_ascii "packet len
-{  @calculatedFrom( ""`tick`"" )	repeat zchar[ 00
-    ]chars //	t
-`a\`
-    ,
-u8x
-// trailing space 
-// a // b
-MetaDataX `line1
-line2`
-    // c
-    ,@calculatedFrom( ""a\""b"" ) match
-    matchKey as asx {
-    [ ""CRC32"" , ""a\""b""
-]// " ++ [27880; 37322]%N ++ runes_of_ascii "
+Pad msg_type ,
+@calculatedFrom(
+    ""CRC32"" // " ++ [128512]%N ++ runes_of_ascii " emoji
+) match chars	as //
+Foo
+    { ""1"" :	x_y_z , ""1""
+:	o , 4294967296  : tag 7
 :
-msg_type
-    ,
-    }
-, i8 string_ @calculatedFrom( ""{,}"" )
-    ,@lengthOf(
-lengthOf
-    //
-    ) zchar[42 ]
-    _x
-// packet A { u8 x, }
-/// triple
-`line1
-line2` ,
-    @lengthOf( asx) repeat// `tick` ""quote"" 'q'
-int8 Header , repeat crc {
-int8 i64_//x
-@calculatedFrom( ""{,}"" ) , } ,repeat _x i8i8 `line1
-line2` , float64// trailing space 
-stringy , MetaDataX { charz
-    { int16 matchKey, repeat
-    i64_,
-    char[ 00] Z9_ `
-` ,
-    match As
-    //x
-    as Packet { 3 : crc , [
-//	t
-// @lengthOf(
-1 ,
-00
-]: Header // " ++ [27880; 37322]%N ++ runes_of_ascii "
-,	255 :_x , 42 : body
-,	[0	] : chars
-    [ 4294967296
-, 65535 ] :chars , }
-/// triple
-// @lengthOf(
-,  }
-// trailing space 
-// @lengthOf(
-, } , } MetaData falsey {
-char[
-255
-] u128 , u8 Header`tab	here`
-,
-string float ,} root packet int { Logon i64_  ,
-    @calculatedFrom(
-""1""
-) zchar { u {
-    zchar[
-255 ] Pad , } , stringy {
-    Pad metadata `u8 x,` ,
-}	, repeat	string i8i8, char[]
-    As@calculatedFrom(
-""\n"" ) ,}
-    // " ++ [27880; 37322]%N ++ runes_of_ascii "
-    , @lengthOf( packetx // a // b
-) @lengthOf(
-    i64_ ) body `line1
-line2`,@lengthOf(roots)match
-// `tick` ""quote"" 'q'
-// trailing space 
-MetaDataX as uint8x { // `tick` ""quote"" 'q'
-[	007
-/// triple
-// " ++ [27880; 37322]%N ++ runes_of_ascii "
-, //x
-255
-    ,
-00]
-    :	body// c
-, [ 65535 , ""1"",// `tick` ""quote"" 'q'
-1  ,
-""\n""//	t
-, 1	,
-    ""CRC32""
-    ,
+trueish  ,
+""" ++ [28040; 24687]%N ++ runes_of_ascii """ // " ++ [27880; 37322]%N ++ runes_of_ascii "
+:
+Header },}MetaData trueish { u msg_type
+,	zchar[
+// 50% %s
+// 50% %s
+00 ] crc , f32
+    A `` ,
     //	t
-    0
-    ] :trueish
-,
-} , uint64 Foo
-, zchar {metadata
-@lengthOf(Pad)//	t
-`crlf
-line` ,
-    match u as charz { 65535 :
-    //x
-    int
-[ ""1""]
-:
-// c
+    uint32 options1 , char[]
+    zchar `
+`	, // packet A { u8 x, }
+}")).
+Eval vm_compute in ("<<<T216>>>" ++ terms [mkTok 35 "packet" 1 2 false; mkTok 42 "asx" 2 0 false; mkTok 2 "{" 2 4 false; mkTok 42 "float" 2 6 false; mkTok 5 "@calculatedFrom(" 2 12 false; mkTok 31 """a\""b""" 2 29 false; mkTok 6 ")" 2 36 false; mkTok 44 "// packet A { u8 x, }" 2 38 true; mkTok 40 "," 3 0 false; mkTok 42 "Pad" 4 0 false; mkTok 42 "msg_type" 4 4 false; mkTok 40 "," 4 13 false; mkTok 5 "@calculatedFrom(" 5 0 false; mkTok 31 """CRC32""" 6 4 false; mkTok 44 (string_of_bytes [47; 47; 32; 240; 159; 152; 128; 32; 101; 109; 111; 106; 105]%N) 6 12 true; mkTok 6 ")" 7 0 false; mkTok 38 "match" 7 2 false; mkTok 42 "chars" 7 8 false; mkTok 17 "as" 7 14 false; mkTok 44 "//" 7 17 true; mkTok 42 "Foo" 8 0 false; mkTok 2 "{" 9 4 false; mkTok 31 """1""" 9 6 false; mkTok 39 ":" 9 10 false; mkTok 42 "x_y_z" 9 12 false; mkTok 40 "," 9 18 false; mkTok 31 """1""" 9 20 false; mkTok 39 ":" 10 0 false; mkTok 42 "o" 10 2 false; mkTok 40 "," 10 4 false; mkTok 30 "4294967296" 10 6 false; mkTok 39 ":" 10 18 false; mkTok 42 "tag" 10 20 false; mkTok 30 "7" 10 24 false; mkTok 39 ":" 11 0 false; mkTok 42 "trueish" 12 0 false; mkTok 40 "," 12 9 false; mkTok 31 (string_of_bytes [34; 230; 182; 136; 230; 129; 175; 34]%N) 13 0 false; mkTok 44 (string_of_bytes [47; 47; 32; 230; 179; 168; 233; 135; 138]%N) 13 5 true; mkTok 39 ":" 14 0 false; mkTok 42 "Header" 15 0 false; mkTok 3 "}" 15 7 false; mkTok 40 "," 15 8 false; mkTok 3 "}" 15 9 false; mkTok 37 "MetaData" 15 10 false; mkTok 42 "trueish" 15 19 false; mkTok 2 "{" 15 27 false; mkTok 42 "u" 15 29 false; mkTok 42 "msg_type" 15 31 false; mkTok 40 "," 16 0 false; mkTok 14 "zchar[" 16 2 false; mkTok 44 "// 50% %s" 17 0 true; mkTok 44 "// 50% %s" 18 0 true; mkTok 30 "00" 19 0 false; mkTok 13 "]" 19 3 false; mkTok 42 "crc" 19 5 false; mkTok 40 "," 19 9 false; mkTok 28 "f32" 19 11 false; mkTok 42 "A" 20 4 false; mkTok 43 "``" 20 6 false; mkTok 40 "," 20 9 false; mkTok 44 (string_of_bytes [47; 47; 9; 116]%N) 21 4 true; mkTok 22 "uint32" 22 4 false; mkTok 42 "options1" 22 11 false; mkTok 40 "," 22 20 false; mkTok 16 "char[]" 22 22 false; mkTok 42 "zchar" 23 4 false; mkTok 43 (string_of_bytes [96; 10; 96]%N) 23 10 false; mkTok 40 "," 24 2 false; mkTok 44 "// packet A { u8 x, }" 24 4 true; mkTok 3 "}" 25 0 false; mkTok 0 "<EOF>" 25 1 false] (mkPacket (mkPtok 35 "packet" 1 2 0) (Some (mkPtok 3 "}" 25 0 70)) [(DPacket (mkPacketDef (mkSpan (mkPtok 35 "packet" 1 2 0) (mkPtok 3 "}" 15 9 43)) None (mkPtok 35 "packet" 1 2 0) (mkPtok 42 "asx" 2 0 1) (mkPtok 2 "{" 2 4 2) [(mkFieldWithAttr (mkSpan (mkPtok 42 "float" 2 6 3) (mkPtok 40 "," 3 0 8)) [] (CheckSumField (mkSpan (mkPtok 42 "float" 2 6 3) (mkPtok 40 "," 3 0 8)) (mkChecksumFieldDecl (mkSpan (mkPtok 42 "float" 2 6 3) (mkPtok 40 "," 3 0 8)) None (mkPtok 42 "float" 2 6 3) (mkCalculatedFrom (mkSpan (mkPtok 5 "@calculatedFrom(" 2 12 4) (mkPtok 6 ")" 2 36 6)) (mkPtok 5 "@calculatedFrom(" 2 12 4) (mkPtok 31 """a\""b""" 2 29 5) (mkPtok 6 ")" 2 36 6)) None (mkPtok 40 "," 3 0 8)))); (mkFieldWithAttr (mkSpan (mkPtok 42 "Pad" 4 0 9) (mkPtok 40 "," 4 13 11)) [] (ObjectField (mkSpan (mkPtok 42 "Pad" 4 0 9) (mkPtok 40 "," 4 13 11)) None (mkPtok 42 "Pad" 4 0 9) (Some (mkPtok 42 "msg_type" 4 4 10)) None (mkPtok 40 "," 4 13 11))); (mkFieldWithAttr (mkSpan (mkPtok 5 "@calculatedFrom(" 5 0 12) (mkPtok 40 "," 15 8 42)) [(FACalculatedFrom (mkSpan (mkPtok 5 "@calculatedFrom(" 5 0 12) (mkPtok 6 ")" 7 0 15)) (mkCalculatedFrom (mkSpan (mkPtok 5 "@calculatedFrom(" 5 0 12) (mkPtok 6 ")" 7 0 15)) (mkPtok 5 "@calculatedFrom(" 5 0 12) (mkPtok 31 """CRC32""" 6 4 13) (mkPtok 6 ")" 7 0 15)))] (MatchField (mkSpan (mkPtok 38 "match" 7 2 16) (mkPtok 40 "," 15 8 42)) (mkMatchFieldDecl (mkSpan (mkPtok 38 "match" 7 2 16) (mkPtok 3 "}" 15 7 41)) (mkPtok 38 "match" 7 2 16) (mkPtok 42 "chars" 7 8 17) (mkPtok 17 "as" 7 14 18) (mkPtok 42 "Foo" 8 0 20) (mkPtok 2 "{" 9 4 21) [(mkMatchPair (mkSpan (mkPtok 31 """1""" 9 6 22) (mkPtok 40 "," 9 18 25)) (MKString (mkPtok 31 """1""" 9 6 22)) (mkPtok 39 ":" 9 10 23) (mkPtok 42 "x_y_z" 9 12 24) (Some (mkPtok 40 "," 9 18 25))); (mkMatchPair (mkSpan (mkPtok 31 """1""" 9 20 26) (mkPtok 40 "," 10 4 29)) (MKString (mkPtok 31 """1""" 9 20 26)) (mkPtok 39 ":" 10 0 27) (mkPtok 42 "o" 10 2 28) (Some (mkPtok 40 "," 10 4 29))); (mkMatchPair (mkSpan (mkPtok 30 "4294967296" 10 6 30) (mkPtok 42 "tag" 10 20 32)) (MKDigits (mkPtok 30 "4294967296" 10 6 30)) (mkPtok 39 ":" 10 18 31) (mkPtok 42 "tag" 10 20 32) None); (mkMatchPair (mkSpan (mkPtok 30 "7" 10 24 33) (mkPtok 40 "," 12 9 36)) (MKDigits (mkPtok 30 "7" 10 24 33)) (mkPtok 39 ":" 11 0 34) (mkPtok 42 "trueish" 12 0 35) (Some (mkPtok 40 "," 12 9 36))); (mkMatchPair (mkSpan (mkPtok 31 (string_of_bytes [34; 230; 182; 136; 230; 129; 175; 34]%N) 13 0 37) (mkPtok 42 "Header" 15 0 40)) (MKString (mkPtok 31 (string_of_bytes [34; 230; 182; 136; 230; 129; 175; 34]%N) 13 0 37)) (mkPtok 39 ":" 14 0 39) (mkPtok 42 "Header" 15 0 40) None)] (mkPtok 3 "}" 15 7 41)) (mkPtok 40 "," 15 8 42)))] (mkPtok 3 "}" 15 9 43))); (DMeta (mkMetaDef (mkSpan (mkPtok 37 "MetaData" 15 10 44) (mkPtok 3 "}" 25 0 70)) (mkPtok 37 "MetaData" 15 10 44) (mkPtok 42 "trueish" 15 19 45) (mkPtok 2 "{" 15 27 46) [(MIRef (mkRefMetaDecl (mkSpan (mkPtok 42 "u" 15 29 47) (mkPtok 40 "," 16 0 49)) (mkPtok 42 "u" 15 29 47) (mkPtok 42 "msg_type" 15 31 48) None (mkPtok 40 "," 16 0 49))); (MIDecl (mkMetaDecl (mkSpan (mkPtok 14 "zchar[" 16 2 50) (mkPtok 40 "," 19 9 56)) (TyFixed (mkSpan (mkPtok 14 "zchar[" 16 2 50) (mkPtok 13 "]" 19 3 54)) (mkFixedString (mkSpan (mkPtok 14 "zchar[" 16 2 50) (mkPtok 13 "]" 19 3 54)) (mkPtok 14 "zchar[" 16 2 50) (mkPtok 30 "00" 19 0 53) (mkPtok 13 "]" 19 3 54))) (mkPtok 42 "crc" 19 5 55) None (mkPtok 40 "," 19 9 56))); (MIDecl (mkMetaDecl (mkSpan (mkPtok 28 "f32" 19 11 57) (mkPtok 40 "," 20 9 60)) (TyBasic (mkSpan (mkPtok 28 "f32" 19 11 57) (mkPtok 28 "f32" 19 11 57)) (mkBasicType (mkSpan (mkPtok 28 "f32" 19 11 57) (mkPtok 28 "f32" 19 11 57)) (mkPtok 28 "f32" 19 11 57))) (mkPtok 42 "A" 20 4 58) (Some (mkPtok 43 "``" 20 6 59)) (mkPtok 40 "," 20 9 60))); (MIDecl (mkMetaDecl (mkSpan (mkPtok 22 "uint32" 22 4 62) (mkPtok 40 "," 22 20 64)) (TyBasic (mkSpan (mkPtok 22 "uint32" 22 4 62) (mkPtok 22 "uint32" 22 4 62)) (mkBasicType (mkSpan (mkPtok 22 "uint32" 22 4 62) (mkPtok 22 "uint32" 22 4 62)) (mkPtok 22 "uint32" 22 4 62))) (mkPtok 42 "options1" 22 11 63) None (mkPtok 40 "," 22 20 64))); (MIDecl (mkMetaDecl (mkSpan (mkPtok 16 "char[]" 22 22 65) (mkPtok 40 "," 24 2 68)) (TyDynamic (mkSpan (mkPtok 16 "char[]" 22 22 65) (mkPtok 16 "char[]" 22 22 65)) (mkDynamicString (mkSpan (mkPtok 16 "char[]" 22 22 65) (mkPtok 16 "char[]" 22 22 65)) (mkPtok 16 "char[]" 22 22 65))) (mkPtok 42 "zchar" 23 4 66) (Some (mkPtok 43 (string_of_bytes [96; 10; 96]%N) 23 10 67)) (mkPtok 40 "," 24 2 68)))] (mkPtok 3 "}" 25 0 70)))])).
+Eval vm_compute in ("<<<M226>>>" ++ check (runes_of_ascii "packet Pad { repeat i32 Z9_ , } MetaData u8x{ // " ++ [128512]%N ++ runes_of_ascii " emoji
+msg_type Logon `a\` // packet A { u8 x, }
+,} MetaData
+    Pad { //	t
+} options{body =	4294967296;
+    a1
+    =
+42  ;
+asx= '\x00';
 //
-a1 , [4294967296 , 00,""" ++ [233]%N ++ runes_of_ascii "t" ++ [233]%N ++ runes_of_ascii """ , """ ++ [28040; 24687]%N ++ runes_of_ascii """ ,
-    00 ]: matchKey , [ ""a\\"" ] : Logon ,
-    },
-repeat rootA { int16
-Foo @lengthOf( rootA // " ++ [27880; 37322]%N ++ runes_of_ascii "
-),options1 `u8 x,` // trailing space 
-, }	,  },  match chars as u
-// " ++ [128512]%N ++ runes_of_ascii " emoji
-// " ++ [128512]%N ++ runes_of_ascii " emoji
-{ [//
-""it's"" , 007	, """ ++ [233]%N ++ runes_of_ascii "t" ++ [233]%N ++ runes_of_ascii """, ""abc"" ,""\n"" ,
-// " ++ [128512]%N ++ runes_of_ascii " emoji
-// " ++ [27880; 37322]%N ++ runes_of_ascii "
-"""" // c
-] :	repeatCount,
-65535
-    // " ++ [128512]%N ++ runes_of_ascii " emoji
-    :Z9_
-, [ 007  , ""abc"",""// no comment""
-, """ ++ [28040; 24687]%N ++ runes_of_ascii """ ] :  falsey ,
-00
-:
-    string_}
-,  char repeatCount , } packet Foo {char[]
-a1 @calculatedFrom( """")`line1
-line2`
-, uint16 // a // b
-MetaDataX
-    // packet A { u8 x, }
-    `say ""hi""`,char[] A ,
-// trailing space 
-// " ++ [128512]%N ++ runes_of_ascii " emoji
-f64 int @lengthOf(Pad  ) , u32
-    BodyLength
-, float64
-trueish @lengthOf(lengthOf )
-// `tick` ""quote"" 'q'
-// trailing space 
-`crlf
-line` , @tag(255 ) match Z9_ as tag { [ ""a\""b"",4294967296  ,  ""{,}"" ,""{,}""/// triple
-] :	Pad	, 1 : lengthOf ,	0123456789 : msg_type  , ""// no comment"":
-    BodyLength, [ ""1"" ] : string_ [3 , 0,1 , 1
-, ""\" ++ [233]%N ++ runes_of_ascii """ // " ++ [27880; 37322]%N ++ runes_of_ascii "
-,
-    """"
-    , 00
-    // c
-    ] // c
-: asx} , body `say ""hi""`// `tick` ""quote"" 'q'
-,	}options { x	='0'
-; u8x // " ++ [128512]%N ++ runes_of_ascii " emoji
-= u64;
-// c
-//	t
-string_ = ""a\""b"" }
+// @lengthOf(
+}
 ")).
-Eval vm_compute in ("<<<T286>>>" ++ terms [mkTok 35 "packet" 1 0 false; mkTok 42 "len" 1 7 false; mkTok 2 "{" 2 0 false; mkTok 5 "@calculatedFrom(" 2 3 false; mkTok 31 """`tick`""" 2 20 false; mkTok 6 ")" 2 29 false; mkTok 36 "repeat" 2 31 false; mkTok 14 "zchar[" 2 38 false; mkTok 30 "00" 2 45 false; mkTok 13 "]" 3 4 false; mkTok 42 "chars" 3 5 false; mkTok 44 (string_of_bytes [47; 47; 9; 116]%N) 3 11 true; mkTok 43 "`a\`" 4 0 false; mkTok 40 "," 5 4 false; mkTok 42 "u8x" 6 0 false; mkTok 44 "// trailing space " 7 0 true; mkTok 44 "// a // b" 8 0 true; mkTok 42 "MetaDataX" 9 0 false; mkTok 43 (string_of_bytes [96; 108; 105; 110; 101; 49; 10; 108; 105; 110; 101; 50; 96]%N) 9 10 false; mkTok 44 "// c" 11 4 true; mkTok 40 "," 12 4 false; mkTok 5 "@calculatedFrom(" 12 5 false; mkTok 31 """a\""b""" 12 22 false; mkTok 6 ")" 12 29 false; mkTok 38 "match" 12 31 false; mkTok 42 "matchKey" 13 4 false; mkTok 17 "as" 13 13 false; mkTok 42 "asx" 13 16 false; mkTok 2 "{" 13 20 false; mkTok 18 "[" 14 4 false; mkTok 31 """CRC32""" 14 6 false; mkTok 40 "," 14 14 false; mkTok 31 """a\""b""" 14 16 false; mkTok 13 "]" 15 0 false; mkTok 44 (string_of_bytes [47; 47; 32; 230; 179; 168; 233; 135; 138]%N) 15 1 true; mkTok 39 ":" 16 0 false; mkTok 42 "msg_type" 17 0 false; mkTok 40 "," 18 4 false; mkTok 3 "}" 19 4 false; mkTok 40 "," 20 0 false; mkTok 24 "i8" 20 2 false; mkTok 42 "string_" 20 5 false; mkTok 5 "@calculatedFrom(" 20 13 false; mkTok 31 """{,}""" 20 30 false; mkTok 6 ")" 20 36 false; mkTok 40 "," 21 4 false; mkTok 7 "@lengthOf(" 21 5 false; mkTok 42 "lengthOf" 22 0 false; mkTok 44 "//" 23 4 true; mkTok 6 ")" 24 4 false; mkTok 14 "zchar[" 24 6 false; mkTok 30 "42" 24 12 false; mkTok 13 "]" 24 15 false; mkTok 42 "_x" 25 4 false; mkTok 44 "// packet A { u8 x, }" 26 0 true; mkTok 44 "/// triple" 27 0 true; mkTok 43 (string_of_bytes [96; 108; 105; 110; 101; 49; 10; 108; 105; 110; 101; 50; 96]%N) 28 0 false; mkTok 40 "," 29 7 false; mkTok 7 "@lengthOf(" 30 4 false; mkTok 42 "asx" 30 15 false; mkTok 6 ")" 30 18 false; mkTok 36 "repeat" 30 20 false; mkTok 44 "// `tick` ""quote"" 'q'" 30 26 true; mkTok 24 "int8" 31 0 false; mkTok 42 "Header" 31 5 false; mkTok 40 "," 31 12 false; mkTok 36 "repeat" 31 14 false; mkTok 42 "crc" 31 21 false; mkTok 2 "{" 31 25 false; mkTok 24 "int8" 32 0 false; mkTok 42 "i64_" 32 5 false; mkTok 44 "//x" 32 9 true; mkTok 5 "@calculatedFrom(" 33 0 false; mkTok 31 """{,}""" 33 17 false; mkTok 6 ")" 33 23 false; mkTok 40 "," 33 25 false; mkTok 3 "}" 33 27 false; mkTok 40 "," 33 29 false; mkTok 36 "repeat" 33 30 false; mkTok 42 "_x" 33 37 false; mkTok 42 "i8i8" 33 40 false; mkTok 43 (string_of_bytes [96; 108; 105; 110; 101; 49; 10; 108; 105; 110; 101; 50; 96]%N) 33 45 false; mkTok 40 "," 34 7 false; mkTok 29 "float64" 34 9 false; mkTok 44 "// trailing space " 34 16 true; mkTok 42 "stringy" 35 0 false; mkTok 40 "," 35 8 false; mkTok 42 "MetaDataX" 35 10 false; mkTok 2 "{" 35 20 false; mkTok 42 "charz" 35 22 false; mkTok 2 "{" 36 4 false; mkTok 25 "int16" 36 6 false; mkTok 42 "matchKey" 36 12 false; mkTok 40 "," 36 20 false; mkTok 36 "repeat" 36 22 false; mkTok 42 "i64_" 37 4 false; mkTok 40 "," 37 8 false; mkTok 12 "char[" 38 4 false; mkTok 30 "00" 38 10 false; mkTok 13 "]" 38 12 false; mkTok 42 "Z9_" 38 14 false; mkTok 43 (string_of_bytes [96; 10; 96]%N) 38 18 false; mkTok 40 "," 39 2 false; mkTok 38 "match" 40 4 false; mkTok 42 "As" 40 10 false; mkTok 44 "//x" 41 4 true; mkTok 17 "as" 42 4 false; mkTok 42 "Packet" 42 7 false; mkTok 2 "{" 42 14 false; mkTok 30 "3" 42 16 false; mkTok 39 ":" 42 18 false; mkTok 42 "crc" 42 20 false; mkTok 40 "," 42 24 false; mkTok 18 "[" 42 26 false; mkTok 44 (string_of_bytes [47; 47; 9; 116]%N) 43 0 true; mkTok 44 "// @lengthOf(" 44 0 true; mkTok 30 "1" 45 0 false; mkTok 40 "," 45 2 false; mkTok 30 "00" 46 0 false; mkTok 13 "]" 47 0 false; mkTok 39 ":" 47 1 false; mkTok 42 "Header" 47 3 false; mkTok 44 (string_of_bytes [47; 47; 32; 230; 179; 168; 233; 135; 138]%N) 47 10 true; mkTok 40 "," 48 0 false; mkTok 30 "255" 48 2 false; mkTok 39 ":" 48 6 false; mkTok 42 "_x" 48 7 false; mkTok 40 "," 48 10 false; mkTok 30 "42" 48 12 false; mkTok 39 ":" 48 15 false; mkTok 42 "body" 48 17 false; mkTok 40 "," 49 0 false; mkTok 18 "[" 49 2 false; mkTok 30 "0" 49 3 false; mkTok 13 "]" 49 5 false; mkTok 39 ":" 49 7 false; mkTok 42 "chars" 49 9 false; mkTok 18 "[" 50 4 false; mkTok 30 "4294967296" 50 6 false; mkTok 40 "," 51 0 false; mkTok 30 "65535" 51 2 false; mkTok 13 "]" 51 8 false; mkTok 39 ":" 51 10 false; mkTok 42 "chars" 51 11 false; mkTok 40 "," 51 17 false; mkTok 3 "}" 51 19 false; mkTok 44 "/// triple" 52 0 true; mkTok 44 "// @lengthOf(" 53 0 true; mkTok 40 "," 54 0 false; mkTok 3 "}" 54 3 false; mkTok 44 "// trailing space " 55 0 true; mkTok 44 "// @lengthOf(" 56 0 true; mkTok 40 "," 57 0 false; mkTok 3 "}" 57 2 false; mkTok 40 "," 57 4 false; mkTok 3 "}" 57 6 false; mkTok 37 "MetaData" 57 8 false; mkTok 42 "falsey" 57 17 false; mkTok 2 "{" 57 24 false; mkTok 12 "char[" 58 0 false; mkTok 30 "255" 59 0 false; mkTok 13 "]" 60 0 false; mkTok 42 "u128" 60 2 false; mkTok 40 "," 60 7 false; mkTok 20 "u8" 60 9 false; mkTok 42 "Header" 60 12 false; mkTok 43 (string_of_bytes [96; 116; 97; 98; 9; 104; 101; 114; 101; 96]%N) 60 18 false; mkTok 40 "," 61 0 false; mkTok 15 "string" 62 0 false; mkTok 42 "float" 62 7 false; mkTok 40 "," 62 13 false; mkTok 3 "}" 62 14 false; mkTok 34 "root" 62 16 false; mkTok 35 "packet" 62 21 false; mkTok 42 "int" 62 28 false; mkTok 2 "{" 62 32 false; mkTok 42 "Logon" 62 34 false; mkTok 42 "i64_" 62 40 false; mkTok 40 "," 62 46 false; mkTok 5 "@calculatedFrom(" 63 4 false; mkTok 31 """1""" 64 0 false; mkTok 6 ")" 65 0 false; mkTok 42 "zchar" 65 2 false; mkTok 2 "{" 65 8 false; mkTok 42 "u" 65 10 false; mkTok 2 "{" 65 12 false; mkTok 14 "zchar[" 66 4 false; mkTok 30 "255" 67 0 false; mkTok 13 "]" 67 4 false; mkTok 42 "Pad" 67 6 false; mkTok 40 "," 67 10 false; mkTok 3 "}" 67 12 false; mkTok 40 "," 67 14 false; mkTok 42 "stringy" 67 16 false; mkTok 2 "{" 67 24 false; mkTok 42 "Pad" 68 4 false; mkTok 42 "metadata" 68 8 false; mkTok 43 "`u8 x,`" 68 17 false; mkTok 40 "," 68 25 false; mkTok 3 "}" 69 0 false; mkTok 40 "," 69 2 false; mkTok 36 "repeat" 69 4 false; mkTok 15 "string" 69 11 false; mkTok 42 "i8i8" 69 18 false; mkTok 40 "," 69 22 false; mkTok 16 "char[]" 69 24 false; mkTok 42 "As" 70 4 false; mkTok 5 "@calculatedFrom(" 70 6 false; mkTok 31 """\n""" 71 0 false; mkTok 6 ")" 71 5 false; mkTok 40 "," 71 7 false; mkTok 3 "}" 71 8 false; mkTok 44 (string_of_bytes [47; 47; 32; 230; 179; 168; 233; 135; 138]%N) 72 4 true; mkTok 40 "," 73 4 false; mkTok 7 "@lengthOf(" 73 6 false; mkTok 42 "packetx" 73 17 false; mkTok 44 "// a // b" 73 25 true; mkTok 6 ")" 74 0 false; mkTok 7 "@lengthOf(" 74 2 false; mkTok 42 "i64_" 75 4 false; mkTok 6 ")" 75 9 false; mkTok 42 "body" 75 11 false; mkTok 43 (string_of_bytes [96; 108; 105; 110; 101; 49; 10; 108; 105; 110; 101; 50; 96]%N) 75 16 false; mkTok 40 "," 76 6 false; mkTok 7 "@lengthOf(" 76 7 false; mkTok 42 "roots" 76 17 false; mkTok 6 ")" 76 22 false; mkTok 38 "match" 76 23 false; mkTok 44 "// `tick` ""quote"" 'q'" 77 0 true; mkTok 44 "// trailing space " 78 0 true; mkTok 42 "MetaDataX" 79 0 false; mkTok 17 "as" 79 10 false; mkTok 42 "uint8x" 79 13 false; mkTok 2 "{" 79 20 false; mkTok 44 "// `tick` ""quote"" 'q'" 79 22 true; mkTok 18 "[" 80 0 false; mkTok 30 "007" 80 2 false; mkTok 44 "/// triple" 81 0 true; mkTok 44 (string_of_bytes [47; 47; 32; 230; 179; 168; 233; 135; 138]%N) 82 0 true; mkTok 40 "," 83 0 false; mkTok 44 "//x" 83 2 true; mkTok 30 "255" 84 0 false; mkTok 40 "," 85 4 false; mkTok 30 "00" 86 0 false; mkTok 13 "]" 86 2 false; mkTok 39 ":" 87 4 false; mkTok 42 "body" 87 6 false; mkTok 44 "// c" 87 10 true; mkTok 40 "," 88 0 false; mkTok 18 "[" 88 2 false; mkTok 30 "65535" 88 4 false; mkTok 40 "," 88 10 false; mkTok 31 """1""" 88 12 false; mkTok 40 "," 88 15 false; mkTok 44 "// `tick` ""quote"" 'q'" 88 16 true; mkTok 30 "1" 89 0 false; mkTok 40 "," 89 3 false; mkTok 31 """\n""" 90 0 false; mkTok 44 (string_of_bytes [47; 47; 9; 116]%N) 90 4 true; mkTok 40 "," 91 0 false; mkTok 30 "1" 91 2 false; mkTok 40 "," 91 4 false; mkTok 31 """CRC32""" 92 4 false; mkTok 40 "," 93 4 false; mkTok 44 (string_of_bytes [47; 47; 9; 116]%N) 94 4 true; mkTok 30 "0" 95 4 false; mkTok 13 "]" 96 4 false; mkTok 39 ":" 96 6 false; mkTok 42 "trueish" 96 7 false; mkTok 40 "," 97 0 false; mkTok 3 "}" 98 0 false; mkTok 40 "," 98 2 false; mkTok 23 "uint64" 98 4 false; mkTok 42 "Foo" 98 11 false; mkTok 40 "," 99 0 false; mkTok 42 "zchar" 99 2 false; mkTok 2 "{" 99 8 false; mkTok 42 "metadata" 99 9 false; mkTok 7 "@lengthOf(" 100 0 false; mkTok 42 "Pad" 100 10 false; mkTok 6 ")" 100 13 false; mkTok 44 (string_of_bytes [47; 47; 9; 116]%N) 100 14 true; mkTok 43 (string_of_bytes [96; 99; 114; 108; 102; 13; 10; 108; 105; 110; 101; 96]%N) 101 0 false; mkTok 40 "," 102 6 false; mkTok 38 "match" 103 4 false; mkTok 42 "u" 103 10 false; mkTok 17 "as" 103 12 false; mkTok 42 "charz" 103 15 false; mkTok 2 "{" 103 21 false; mkTok 30 "65535" 103 23 false; mkTok 39 ":" 103 29 false; mkTok 44 "//x" 104 4 true; mkTok 42 "int" 105 4 false; mkTok 18 "[" 106 0 false; mkTok 31 """1""" 106 2 false; mkTok 13 "]" 106 5 false; mkTok 39 ":" 107 0 false; mkTok 44 "// c" 108 0 true; mkTok 44 "//" 109 0 true; mkTok 42 "a1" 110 0 false; mkTok 40 "," 110 3 false; mkTok 18 "[" 110 5 false; mkTok 30 "4294967296" 110 6 false; mkTok 40 "," 110 17 false; mkTok 30 "00" 110 19 false; mkTok 40 "," 110 21 false; mkTok 31 (string_of_bytes [34; 195; 169; 116; 195; 169; 34]%N) 110 22 false; mkTok 40 "," 110 28 false; mkTok 31 (string_of_bytes [34; 230; 182; 136; 230; 129; 175; 34]%N) 110 30 false; mkTok 40 "," 110 35 false; mkTok 30 "00" 111 4 false; mkTok 13 "]" 111 7 false; mkTok 39 ":" 111 8 false; mkTok 42 "matchKey" 111 10 false; mkTok 40 "," 111 19 false; mkTok 18 "[" 111 21 false; mkTok 31 """a\\""" 111 23 false; mkTok 13 "]" 111 29 false; mkTok 39 ":" 111 31 false; mkTok 42 "Logon" 111 33 false; mkTok 40 "," 111 39 false; mkTok 3 "}" 112 4 false; mkTok 40 "," 112 5 false; mkTok 36 "repeat" 113 0 false; mkTok 42 "rootA" 113 7 false; mkTok 2 "{" 113 13 false; mkTok 25 "int16" 113 15 false; mkTok 42 "Foo" 114 0 false; mkTok 7 "@lengthOf(" 114 4 false; mkTok 42 "rootA" 114 15 false; mkTok 44 (string_of_bytes [47; 47; 32; 230; 179; 168; 233; 135; 138]%N) 114 21 true; mkTok 6 ")" 115 0 false; mkTok 40 "," 115 1 false; mkTok 42 "options1" 115 2 false; mkTok 43 "`u8 x,`" 115 11 false; mkTok 44 "// trailing space " 115 19 true; mkTok 40 "," 116 0 false; mkTok 3 "}" 116 2 false; mkTok 40 "," 116 4 false; mkTok 3 "}" 116 7 false; mkTok 40 "," 116 8 false; mkTok 38 "match" 116 11 false; mkTok 42 "chars" 116 17 false; mkTok 17 "as" 116 23 false; mkTok 42 "u" 116 26 false; mkTok 44 (string_of_bytes [47; 47; 32; 240; 159; 152; 128; 32; 101; 109; 111; 106; 105]%N) 117 0 true; mkTok 44 (string_of_bytes [47; 47; 32; 240; 159; 152; 128; 32; 101; 109; 111; 106; 105]%N) 118 0 true; mkTok 2 "{" 119 0 false; mkTok 18 "[" 119 2 false; mkTok 44 "//" 119 3 true; mkTok 31 """it's""" 120 0 false; mkTok 40 "," 120 7 false; mkTok 30 "007" 120 9 false; mkTok 40 "," 120 13 false; mkTok 31 (string_of_bytes [34; 195; 169; 116; 195; 169; 34]%N) 120 15 false; mkTok 40 "," 120 20 false; mkTok 31 """abc""" 120 22 false; mkTok 40 "," 120 28 false; mkTok 31 """\n""" 120 29 false; mkTok 40 "," 120 34 false; mkTok 44 (string_of_bytes [47; 47; 32; 240; 159; 152; 128; 32; 101; 109; 111; 106; 105]%N) 121 0 true; mkTok 44 (string_of_bytes [47; 47; 32; 230; 179; 168; 233; 135; 138]%N) 122 0 true; mkTok 31 """""" 123 0 false; mkTok 44 "// c" 123 3 true; mkTok 13 "]" 124 0 false; mkTok 39 ":" 124 2 false; mkTok 42 "repeatCount" 124 4 false; mkTok 40 "," 124 15 false; mkTok 30 "65535" 125 0 false; mkTok 44 (string_of_bytes [47; 47; 32; 240; 159; 152; 128; 32; 101; 109; 111; 106; 105]%N) 126 4 true; mkTok 39 ":" 127 4 false; mkTok 42 "Z9_" 127 5 false; mkTok 40 "," 128 0 false; mkTok 18 "[" 128 2 false; mkTok 30 "007" 128 4 false; mkTok 40 "," 128 9 false; mkTok 31 """abc""" 128 11 false; mkTok 40 "," 128 16 false; mkTok 31 """// no comment""" 128 17 false; mkTok 40 "," 129 0 false; mkTok 31 (string_of_bytes [34; 230; 182; 136; 230; 129; 175; 34]%N) 129 2 false; mkTok 13 "]" 129 7 false; mkTok 39 ":" 129 9 false; mkTok 42 "falsey" 129 12 false; mkTok 40 "," 129 19 false; mkTok 30 "00" 130 0 false; mkTok 39 ":" 131 0 false; mkTok 42 "string_" 132 4 false; mkTok 3 "}" 132 11 false; mkTok 40 "," 133 0 false; mkTok 19 "char" 133 3 false; mkTok 42 "repeatCount" 133 8 false; mkTok 40 "," 133 20 false; mkTok 3 "}" 133 22 false; mkTok 35 "packet" 133 24 false; mkTok 42 "Foo" 133 31 false; mkTok 2 "{" 133 35 false; mkTok 16 "char[]" 133 36 false; mkTok 42 "a1" 134 0 false; mkTok 5 "@calculatedFrom(" 134 3 false; mkTok 31 """""" 134 20 false; mkTok 6 ")" 134 22 false; mkTok 43 (string_of_bytes [96; 108; 105; 110; 101; 49; 10; 108; 105; 110; 101; 50; 96]%N) 134 23 false; mkTok 40 "," 136 0 false; mkTok 21 "uint16" 136 2 false; mkTok 44 "// a // b" 136 9 true; mkTok 42 "MetaDataX" 137 0 false; mkTok 44 "// packet A { u8 x, }" 138 4 true; mkTok 43 "`say ""hi""`" 139 4 false; mkTok 40 "," 139 14 false; mkTok 16 "char[]" 139 15 false; mkTok 42 "A" 139 22 false; mkTok 40 "," 139 24 false; mkTok 44 "// trailing space " 140 0 true; mkTok 44 (string_of_bytes [47; 47; 32; 240; 159; 152; 128; 32; 101; 109; 111; 106; 105]%N) 141 0 true; mkTok 29 "f64" 142 0 false; mkTok 42 "int" 142 4 false; mkTok 7 "@lengthOf(" 142 8 false; mkTok 42 "Pad" 142 18 false; mkTok 6 ")" 142 23 false; mkTok 40 "," 142 25 false; mkTok 22 "u32" 142 27 false; mkTok 42 "BodyLength" 143 4 false; mkTok 40 "," 144 0 false; mkTok 29 "float64" 144 2 false; mkTok 42 "trueish" 145 0 false; mkTok 7 "@lengthOf(" 145 8 false; mkTok 42 "lengthOf" 145 18 false; mkTok 6 ")" 145 27 false; mkTok 44 "// `tick` ""quote"" 'q'" 146 0 true; mkTok 44 "// trailing space " 147 0 true; mkTok 43 (string_of_bytes [96; 99; 114; 108; 102; 13; 10; 108; 105; 110; 101; 96]%N) 148 0 false; mkTok 40 "," 149 6 false; mkTok 9 "@tag(" 149 8 false; mkTok 30 "255" 149 13 false; mkTok 6 ")" 149 17 false; mkTok 38 "match" 149 19 false; mkTok 42 "Z9_" 149 25 false; mkTok 17 "as" 149 29 false; mkTok 42 "tag" 149 32 false; mkTok 2 "{" 149 36 false; mkTok 18 "[" 149 38 false; mkTok 31 """a\""b""" 149 40 false; mkTok 40 "," 149 46 false; mkTok 30 "4294967296" 149 47 false; mkTok 40 "," 149 59 false; mkTok 31 """{,}""" 149 62 false; mkTok 40 "," 149 68 false; mkTok 31 """{,}""" 149 69 false; mkTok 44 "/// triple" 149 74 true; mkTok 13 "]" 150 0 false; mkTok 39 ":" 150 2 false; mkTok 42 "Pad" 150 4 false; mkTok 40 "," 150 8 false; mkTok 30 "1" 150 10 false; mkTok 39 ":" 150 12 false; mkTok 42 "lengthOf" 150 14 false; mkTok 40 "," 150 23 false; mkTok 30 "0123456789" 150 25 false; mkTok 39 ":" 150 36 false; mkTok 42 "msg_type" 150 38 false; mkTok 40 "," 150 48 false; mkTok 31 """// no comment""" 150 50 false; mkTok 39 ":" 150 65 false; mkTok 42 "BodyLength" 151 4 false; mkTok 40 "," 151 14 false; mkTok 18 "[" 151 16 false; mkTok 31 """1""" 151 18 false; mkTok 13 "]" 151 22 false; mkTok 39 ":" 151 24 false; mkTok 42 "string_" 151 26 false; mkTok 18 "[" 151 34 false; mkTok 30 "3" 151 35 false; mkTok 40 "," 151 37 false; mkTok 30 "0" 151 39 false; mkTok 40 "," 151 40 false; mkTok 30 "1" 151 41 false; mkTok 40 "," 151 43 false; mkTok 30 "1" 151 45 false; mkTok 40 "," 152 0 false; mkTok 31 (string_of_bytes [34; 92; 195; 169; 34]%N) 152 2 false; mkTok 44 (string_of_bytes [47; 47; 32; 230; 179; 168; 233; 135; 138]%N) 152 7 true; mkTok 40 "," 153 0 false; mkTok 31 """""" 154 4 false; mkTok 40 "," 155 4 false; mkTok 30 "00" 155 6 false; mkTok 44 "// c" 156 4 true; mkTok 13 "]" 157 4 false; mkTok 44 "// c" 157 6 true; mkTok 39 ":" 158 0 false; mkTok 42 "asx" 158 2 false; mkTok 3 "}" 158 5 false; mkTok 40 "," 158 7 false; mkTok 42 "body" 158 9 false; mkTok 43 "`say ""hi""`" 158 14 false; mkTok 44 "// `tick` ""quote"" 'q'" 158 24 true; mkTok 40 "," 159 0 false; mkTok 3 "}" 159 2 false; mkTok 1 "options" 159 3 false; mkTok 2 "{" 159 11 false; mkTok 42 "x" 159 13 false; mkTok 4 "=" 159 15 false; mkTok 33 "'0'" 159 16 false; mkTok 41 ";" 160 0 false; mkTok 42 "u8x" 160 2 false; mkTok 44 (string_of_bytes [47; 47; 32; 240; 159; 152; 128; 32; 101; 109; 111; 106; 105]%N) 160 6 true; mkTok 4 "=" 161 0 false; mkTok 23 "u64" 161 2 false; mkTok 41 ";" 161 5 false; mkTok 44 "// c" 162 0 true; mkTok 44 (string_of_bytes [47; 47; 9; 116]%N) 163 0 true; mkTok 42 "string_" 164 0 false; mkTok 4 "=" 164 8 false; mkTok 31 """a\""b""" 164 10 false; mkTok 3 "}" 164 17 false; mkTok 0 "<EOF>" 165 0 false] (mkPacket (mkPtok 35 "packet" 1 0 0) (Some (mkPtok 3 "}" 164 17 514)) [(DPacket (mkPacketDef (mkSpan (mkPtok 35 "packet" 1 0 0) (mkPtok 3 "}" 57 6 155)) None (mkPtok 35 "packet" 1 0 0) (mkPtok 42 "len" 1 7 1) (mkPtok 2 "{" 2 0 2) [(mkFieldWithAttr (mkSpan (mkPtok 5 "@calculatedFrom(" 2 3 3) (mkPtok 40 "," 5 4 13)) [(FACalculatedFrom (mkSpan (mkPtok 5 "@calculatedFrom(" 2 3 3) (mkPtok 6 ")" 2 29 5)) (mkCalculatedFrom (mkSpan (mkPtok 5 "@calculatedFrom(" 2 3 3) (mkPtok 6 ")" 2 29 5)) (mkPtok 5 "@calculatedFrom(" 2 3 3) (mkPtok 31 """`tick`""" 2 20 4) (mkPtok 6 ")" 2 29 5)))] (MetaField (mkSpan (mkPtok 36 "repeat" 2 31 6) (mkPtok 40 "," 5 4 13)) (Some (mkPtok 36 "repeat" 2 31 6)) (mkMetaDecl (mkSpan (mkPtok 14 "zchar[" 2 38 7) (mkPtok 40 "," 5 4 13)) (TyFixed (mkSpan (mkPtok 14 "zchar[" 2 38 7) (mkPtok 13 "]" 3 4 9)) (mkFixedString (mkSpan (mkPtok 14 "zchar[" 2 38 7) (mkPtok 13 "]" 3 4 9)) (mkPtok 14 "zchar[" 2 38 7) (mkPtok 30 "00" 2 45 8) (mkPtok 13 "]" 3 4 9))) (mkPtok 42 "chars" 3 5 10) (Some (mkPtok 43 "`a\`" 4 0 12)) (mkPtok 40 "," 5 4 13)))); (mkFieldWithAttr (mkSpan (mkPtok 42 "u8x" 6 0 14) (mkPtok 40 "," 12 4 20)) [] (ObjectField (mkSpan (mkPtok 42 "u8x" 6 0 14) (mkPtok 40 "," 12 4 20)) None (mkPtok 42 "u8x" 6 0 14) (Some (mkPtok 42 "MetaDataX" 9 0 17)) (Some (mkPtok 43 (string_of_bytes [96; 108; 105; 110; 101; 49; 10; 108; 105; 110; 101; 50; 96]%N) 9 10 18)) (mkPtok 40 "," 12 4 20))); (mkFieldWithAttr (mkSpan (mkPtok 5 "@calculatedFrom(" 12 5 21) (mkPtok 40 "," 20 0 39)) [(FACalculatedFrom (mkSpan (mkPtok 5 "@calculatedFrom(" 12 5 21) (mkPtok 6 ")" 12 29 23)) (mkCalculatedFrom (mkSpan (mkPtok 5 "@calculatedFrom(" 12 5 21) (mkPtok 6 ")" 12 29 23)) (mkPtok 5 "@calculatedFrom(" 12 5 21) (mkPtok 31 """a\""b""" 12 22 22) (mkPtok 6 ")" 12 29 23)))] (MatchField (mkSpan (mkPtok 38 "match" 12 31 24) (mkPtok 40 "," 20 0 39)) (mkMatchFieldDecl (mkSpan (mkPtok 38 "match" 12 31 24) (mkPtok 3 "}" 19 4 38)) (mkPtok 38 "match" 12 31 24) (mkPtok 42 "matchKey" 13 4 25) (mkPtok 17 "as" 13 13 26) (mkPtok 42 "asx" 13 16 27) (mkPtok 2 "{" 13 20 28) [(mkMatchPair (mkSpan (mkPtok 18 "[" 14 4 29) (mkPtok 40 "," 18 4 37)) (MKList (mkKeyList (mkSpan (mkPtok 18 "[" 14 4 29) (mkPtok 13 "]" 15 0 33)) (mkPtok 18 "[" 14 4 29) (mkPtok 31 """CRC32""" 14 6 30) [((mkPtok 40 "," 14 14 31), (mkPtok 31 """a\""b""" 14 16 32))] (mkPtok 13 "]" 15 0 33))) (mkPtok 39 ":" 16 0 35) (mkPtok 42 "msg_type" 17 0 36) (Some (mkPtok 40 "," 18 4 37)))] (mkPtok 3 "}" 19 4 38)) (mkPtok 40 "," 20 0 39))); (mkFieldWithAttr (mkSpan (mkPtok 24 "i8" 20 2 40) (mkPtok 40 "," 21 4 45)) [] (CheckSumField (mkSpan (mkPtok 24 "i8" 20 2 40) (mkPtok 40 "," 21 4 45)) (mkChecksumFieldDecl (mkSpan (mkPtok 24 "i8" 20 2 40) (mkPtok 40 "," 21 4 45)) (Some (TyBasic (mkSpan (mkPtok 24 "i8" 20 2 40) (mkPtok 24 "i8" 20 2 40)) (mkBasicType (mkSpan (mkPtok 24 "i8" 20 2 40) (mkPtok 24 "i8" 20 2 40)) (mkPtok 24 "i8" 20 2 40)))) (mkPtok 42 "string_" 20 5 41) (mkCalculatedFrom (mkSpan (mkPtok 5 "@calculatedFrom(" 20 13 42) (mkPtok 6 ")" 20 36 44)) (mkPtok 5 "@calculatedFrom(" 20 13 42) (mkPtok 31 """{,}""" 20 30 43) (mkPtok 6 ")" 20 36 44)) None (mkPtok 40 "," 21 4 45)))); (mkFieldWithAttr (mkSpan (mkPtok 7 "@lengthOf(" 21 5 46) (mkPtok 40 "," 29 7 57)) [(FALengthOf (mkSpan (mkPtok 7 "@lengthOf(" 21 5 46) (mkPtok 6 ")" 24 4 49)) (mkLengthOf (mkSpan (mkPtok 7 "@lengthOf(" 21 5 46) (mkPtok 6 ")" 24 4 49)) (mkPtok 7 "@lengthOf(" 21 5 46) (mkPtok 42 "lengthOf" 22 0 47) (mkPtok 6 ")" 24 4 49)))] (MetaField (mkSpan (mkPtok 14 "zchar[" 24 6 50) (mkPtok 40 "," 29 7 57)) None (mkMetaDecl (mkSpan (mkPtok 14 "zchar[" 24 6 50) (mkPtok 40 "," 29 7 57)) (TyFixed (mkSpan (mkPtok 14 "zchar[" 24 6 50) (mkPtok 13 "]" 24 15 52)) (mkFixedString (mkSpan (mkPtok 14 "zchar[" 24 6 50) (mkPtok 13 "]" 24 15 52)) (mkPtok 14 "zchar[" 24 6 50) (mkPtok 30 "42" 24 12 51) (mkPtok 13 "]" 24 15 52))) (mkPtok 42 "_x" 25 4 53) (Some (mkPtok 43 (string_of_bytes [96; 108; 105; 110; 101; 49; 10; 108; 105; 110; 101; 50; 96]%N) 28 0 56)) (mkPtok 40 "," 29 7 57)))); (mkFieldWithAttr (mkSpan (mkPtok 7 "@lengthOf(" 30 4 58) (mkPtok 40 "," 31 12 65)) [(FALengthOf (mkSpan (mkPtok 7 "@lengthOf(" 30 4 58) (mkPtok 6 ")" 30 18 60)) (mkLengthOf (mkSpan (mkPtok 7 "@lengthOf(" 30 4 58) (mkPtok 6 ")" 30 18 60)) (mkPtok 7 "@lengthOf(" 30 4 58) (mkPtok 42 "asx" 30 15 59) (mkPtok 6 ")" 30 18 60)))] (MetaField (mkSpan (mkPtok 36 "repeat" 30 20 61) (mkPtok 40 "," 31 12 65)) (Some (mkPtok 36 "repeat" 30 20 61)) (mkMetaDecl (mkSpan (mkPtok 24 "int8" 31 0 63) (mkPtok 40 "," 31 12 65)) (TyBasic (mkSpan (mkPtok 24 "int8" 31 0 63) (mkPtok 24 "int8" 31 0 63)) (mkBasicType (mkSpan (mkPtok 24 "int8" 31 0 63) (mkPtok 24 "int8" 31 0 63)) (mkPtok 24 "int8" 31 0 63))) (mkPtok 42 "Header" 31 5 64) None (mkPtok 40 "," 31 12 65)))); (mkFieldWithAttr (mkSpan (mkPtok 36 "repeat" 31 14 66) (mkPtok 40 "," 33 29 77)) [] (InerObjectField (mkSpan (mkPtok 36 "repeat" 31 14 66) (mkPtok 40 "," 33 29 77)) (Some (mkPtok 36 "repeat" 31 14 66)) (InerObjectDecl (mkSpan (mkPtok 42 "crc" 31 21 67) (mkPtok 3 "}" 33 27 76)) (mkPtok 42 "crc" 31 21 67) (mkPtok 2 "{" 31 25 68) [(CheckSumField (mkSpan (mkPtok 24 "int8" 32 0 69) (mkPtok 40 "," 33 25 75)) (mkChecksumFieldDecl (mkSpan (mkPtok 24 "int8" 32 0 69) (mkPtok 40 "," 33 25 75)) (Some (TyBasic (mkSpan (mkPtok 24 "int8" 32 0 69) (mkPtok 24 "int8" 32 0 69)) (mkBasicType (mkSpan (mkPtok 24 "int8" 32 0 69) (mkPtok 24 "int8" 32 0 69)) (mkPtok 24 "int8" 32 0 69)))) (mkPtok 42 "i64_" 32 5 70) (mkCalculatedFrom (mkSpan (mkPtok 5 "@calculatedFrom(" 33 0 72) (mkPtok 6 ")" 33 23 74)) (mkPtok 5 "@calculatedFrom(" 33 0 72) (mkPtok 31 """{,}""" 33 17 73) (mkPtok 6 ")" 33 23 74)) None (mkPtok 40 "," 33 25 75)))] (mkPtok 3 "}" 33 27 76)) (mkPtok 40 "," 33 29 77))); (mkFieldWithAttr (mkSpan (mkPtok 36 "repeat" 33 30 78) (mkPtok 40 "," 34 7 82)) [] (ObjectField (mkSpan (mkPtok 36 "repeat" 33 30 78) (mkPtok 40 "," 34 7 82)) (Some (mkPtok 36 "repeat" 33 30 78)) (mkPtok 42 "_x" 33 37 79) (Some (mkPtok 42 "i8i8" 33 40 80)) (Some (mkPtok 43 (string_of_bytes [96; 108; 105; 110; 101; 49; 10; 108; 105; 110; 101; 50; 96]%N) 33 45 81)) (mkPtok 40 "," 34 7 82))); (mkFieldWithAttr (mkSpan (mkPtok 29 "float64" 34 9 83) (mkPtok 40 "," 35 8 86)) [] (MetaField (mkSpan (mkPtok 29 "float64" 34 9 83) (mkPtok 40 "," 35 8 86)) None (mkMetaDecl (mkSpan (mkPtok 29 "float64" 34 9 83) (mkPtok 40 "," 35 8 86)) (TyBasic (mkSpan (mkPtok 29 "float64" 34 9 83) (mkPtok 29 "float64" 34 9 83)) (mkBasicType (mkSpan (mkPtok 29 "float64" 34 9 83) (mkPtok 29 "float64" 34 9 83)) (mkPtok 29 "float64" 34 9 83))) (mkPtok 42 "stringy" 35 0 85) None (mkPtok 40 "," 35 8 86)))); (mkFieldWithAttr (mkSpan (mkPtok 42 "MetaDataX" 35 10 87) (mkPtok 40 "," 57 4 154)) [] (InerObjectField (mkSpan (mkPtok 42 "MetaDataX" 35 10 87) (mkPtok 40 "," 57 4 154)) None (InerObjectDecl (mkSpan (mkPtok 42 "MetaDataX" 35 10 87) (mkPtok 3 "}" 57 2 153)) (mkPtok 42 "MetaDataX" 35 10 87) (mkPtok 2 "{" 35 20 88) [(InerObjectField (mkSpan (mkPtok 42 "charz" 35 22 89) (mkPtok 40 "," 57 0 152)) None (InerObjectDecl (mkSpan (mkPtok 42 "charz" 35 22 89) (mkPtok 3 "}" 54 3 149)) (mkPtok 42 "charz" 35 22 89) (mkPtok 2 "{" 36 4 90) [(MetaField (mkSpan (mkPtok 25 "int16" 36 6 91) (mkPtok 40 "," 36 20 93)) None (mkMetaDecl (mkSpan (mkPtok 25 "int16" 36 6 91) (mkPtok 40 "," 36 20 93)) (TyBasic (mkSpan (mkPtok 25 "int16" 36 6 91) (mkPtok 25 "int16" 36 6 91)) (mkBasicType (mkSpan (mkPtok 25 "int16" 36 6 91) (mkPtok 25 "int16" 36 6 91)) (mkPtok 25 "int16" 36 6 91))) (mkPtok 42 "matchKey" 36 12 92) None (mkPtok 40 "," 36 20 93))); (ObjectField (mkSpan (mkPtok 36 "repeat" 36 22 94) (mkPtok 40 "," 37 8 96)) (Some (mkPtok 36 "repeat" 36 22 94)) (mkPtok 42 "i64_" 37 4 95) None None (mkPtok 40 "," 37 8 96)); (MetaField (mkSpan (mkPtok 12 "char[" 38 4 97) (mkPtok 40 "," 39 2 102)) None (mkMetaDecl (mkSpan (mkPtok 12 "char[" 38 4 97) (mkPtok 40 "," 39 2 102)) (TyFixed (mkSpan (mkPtok 12 "char[" 38 4 97) (mkPtok 13 "]" 38 12 99)) (mkFixedString (mkSpan (mkPtok 12 "char[" 38 4 97) (mkPtok 13 "]" 38 12 99)) (mkPtok 12 "char[" 38 4 97) (mkPtok 30 "00" 38 10 98) (mkPtok 13 "]" 38 12 99))) (mkPtok 42 "Z9_" 38 14 100) (Some (mkPtok 43 (string_of_bytes [96; 10; 96]%N) 38 18 101)) (mkPtok 40 "," 39 2 102))); (MatchField (mkSpan (mkPtok 38 "match" 40 4 103) (mkPtok 40 "," 54 0 148)) (mkMatchFieldDecl (mkSpan (mkPtok 38 "match" 40 4 103) (mkPtok 3 "}" 51 19 145)) (mkPtok 38 "match" 40 4 103) (mkPtok 42 "As" 40 10 104) (mkPtok 17 "as" 42 4 106) (mkPtok 42 "Packet" 42 7 107) (mkPtok 2 "{" 42 14 108) [(mkMatchPair (mkSpan (mkPtok 30 "3" 42 16 109) (mkPtok 40 "," 42 24 112)) (MKDigits (mkPtok 30 "3" 42 16 109)) (mkPtok 39 ":" 42 18 110) (mkPtok 42 "crc" 42 20 111) (Some (mkPtok 40 "," 42 24 112))); (mkMatchPair (mkSpan (mkPtok 18 "[" 42 26 113) (mkPtok 40 "," 48 0 123)) (MKList (mkKeyList (mkSpan (mkPtok 18 "[" 42 26 113) (mkPtok 13 "]" 47 0 119)) (mkPtok 18 "[" 42 26 113) (mkPtok 30 "1" 45 0 116) [((mkPtok 40 "," 45 2 117), (mkPtok 30 "00" 46 0 118))] (mkPtok 13 "]" 47 0 119))) (mkPtok 39 ":" 47 1 120) (mkPtok 42 "Header" 47 3 121) (Some (mkPtok 40 "," 48 0 123))); (mkMatchPair (mkSpan (mkPtok 30 "255" 48 2 124) (mkPtok 40 "," 48 10 127)) (MKDigits (mkPtok 30 "255" 48 2 124)) (mkPtok 39 ":" 48 6 125) (mkPtok 42 "_x" 48 7 126) (Some (mkPtok 40 "," 48 10 127))); (mkMatchPair (mkSpan (mkPtok 30 "42" 48 12 128) (mkPtok 40 "," 49 0 131)) (MKDigits (mkPtok 30 "42" 48 12 128)) (mkPtok 39 ":" 48 15 129) (mkPtok 42 "body" 48 17 130) (Some (mkPtok 40 "," 49 0 131))); (mkMatchPair (mkSpan (mkPtok 18 "[" 49 2 132) (mkPtok 42 "chars" 49 9 136)) (MKList (mkKeyList (mkSpan (mkPtok 18 "[" 49 2 132) (mkPtok 13 "]" 49 5 134)) (mkPtok 18 "[" 49 2 132) (mkPtok 30 "0" 49 3 133) [] (mkPtok 13 "]" 49 5 134))) (mkPtok 39 ":" 49 7 135) (mkPtok 42 "chars" 49 9 136) None); (mkMatchPair (mkSpan (mkPtok 18 "[" 50 4 137) (mkPtok 40 "," 51 17 144)) (MKList (mkKeyList (mkSpan (mkPtok 18 "[" 50 4 137) (mkPtok 13 "]" 51 8 141)) (mkPtok 18 "[" 50 4 137) (mkPtok 30 "4294967296" 50 6 138) [((mkPtok 40 "," 51 0 139), (mkPtok 30 "65535" 51 2 140))] (mkPtok 13 "]" 51 8 141))) (mkPtok 39 ":" 51 10 142) (mkPtok 42 "chars" 51 11 143) (Some (mkPtok 40 "," 51 17 144)))] (mkPtok 3 "}" 51 19 145)) (mkPtok 40 "," 54 0 148))] (mkPtok 3 "}" 54 3 149)) (mkPtok 40 "," 57 0 152))] (mkPtok 3 "}" 57 2 153)) (mkPtok 40 "," 57 4 154)))] (mkPtok 3 "}" 57 6 155))); (DMeta (mkMetaDef (mkSpan (mkPtok 37 "MetaData" 57 8 156) (mkPtok 3 "}" 62 14 171)) (mkPtok 37 "MetaData" 57 8 156) (mkPtok 42 "falsey" 57 17 157) (mkPtok 2 "{" 57 24 158) [(MIDecl (mkMetaDecl (mkSpan (mkPtok 12 "char[" 58 0 159) (mkPtok 40 "," 60 7 163)) (TyFixed (mkSpan (mkPtok 12 "char[" 58 0 159) (mkPtok 13 "]" 60 0 161)) (mkFixedString (mkSpan (mkPtok 12 "char[" 58 0 159) (mkPtok 13 "]" 60 0 161)) (mkPtok 12 "char[" 58 0 159) (mkPtok 30 "255" 59 0 160) (mkPtok 13 "]" 60 0 161))) (mkPtok 42 "u128" 60 2 162) None (mkPtok 40 "," 60 7 163))); (MIDecl (mkMetaDecl (mkSpan (mkPtok 20 "u8" 60 9 164) (mkPtok 40 "," 61 0 167)) (TyBasic (mkSpan (mkPtok 20 "u8" 60 9 164) (mkPtok 20 "u8" 60 9 164)) (mkBasicType (mkSpan (mkPtok 20 "u8" 60 9 164) (mkPtok 20 "u8" 60 9 164)) (mkPtok 20 "u8" 60 9 164))) (mkPtok 42 "Header" 60 12 165) (Some (mkPtok 43 (string_of_bytes [96; 116; 97; 98; 9; 104; 101; 114; 101; 96]%N) 60 18 166)) (mkPtok 40 "," 61 0 167))); (MIDecl (mkMetaDecl (mkSpan (mkPtok 15 "string" 62 0 168) (mkPtok 40 "," 62 13 170)) (TyDynamic (mkSpan (mkPtok 15 "string" 62 0 168) (mkPtok 15 "string" 62 0 168)) (mkDynamicString (mkSpan (mkPtok 15 "string" 62 0 168) (mkPtok 15 "string" 62 0 168)) (mkPtok 15 "string" 62 0 168))) (mkPtok 42 "float" 62 7 169) None (mkPtok 40 "," 62 13 170)))] (mkPtok 3 "}" 62 14 171))); (DPacket (mkPacketDef (mkSpan (mkPtok 34 "root" 62 16 172) (mkPtok 3 "}" 133 22 393)) (Some (mkPtok 34 "root" 62 16 172)) (mkPtok 35 "packet" 62 21 173) (mkPtok 42 "int" 62 28 174) (mkPtok 2 "{" 62 32 175) [(mkFieldWithAttr (mkSpan (mkPtok 42 "Logon" 62 34 176) (mkPtok 40 "," 62 46 178)) [] (ObjectField (mkSpan (mkPtok 42 "Logon" 62 34 176) (mkPtok 40 "," 62 46 178)) None (mkPtok 42 "Logon" 62 34 176) (Some (mkPtok 42 "i64_" 62 40 177)) None (mkPtok 40 "," 62 46 178))); (mkFieldWithAttr (mkSpan (mkPtok 5 "@calculatedFrom(" 63 4 179) (mkPtok 40 "," 73 4 213)) [(FACalculatedFrom (mkSpan (mkPtok 5 "@calculatedFrom(" 63 4 179) (mkPtok 6 ")" 65 0 181)) (mkCalculatedFrom (mkSpan (mkPtok 5 "@calculatedFrom(" 63 4 179) (mkPtok 6 ")" 65 0 181)) (mkPtok 5 "@calculatedFrom(" 63 4 179) (mkPtok 31 """1""" 64 0 180) (mkPtok 6 ")" 65 0 181)))] (InerObjectField (mkSpan (mkPtok 42 "zchar" 65 2 182) (mkPtok 40 "," 73 4 213)) None (InerObjectDecl (mkSpan (mkPtok 42 "zchar" 65 2 182) (mkPtok 3 "}" 71 8 211)) (mkPtok 42 "zchar" 65 2 182) (mkPtok 2 "{" 65 8 183) [(InerObjectField (mkSpan (mkPtok 42 "u" 65 10 184) (mkPtok 40 "," 67 14 192)) None (InerObjectDecl (mkSpan (mkPtok 42 "u" 65 10 184) (mkPtok 3 "}" 67 12 191)) (mkPtok 42 "u" 65 10 184) (mkPtok 2 "{" 65 12 185) [(MetaField (mkSpan (mkPtok 14 "zchar[" 66 4 186) (mkPtok 40 "," 67 10 190)) None (mkMetaDecl (mkSpan (mkPtok 14 "zchar[" 66 4 186) (mkPtok 40 "," 67 10 190)) (TyFixed (mkSpan (mkPtok 14 "zchar[" 66 4 186) (mkPtok 13 "]" 67 4 188)) (mkFixedString (mkSpan (mkPtok 14 "zchar[" 66 4 186) (mkPtok 13 "]" 67 4 188)) (mkPtok 14 "zchar[" 66 4 186) (mkPtok 30 "255" 67 0 187) (mkPtok 13 "]" 67 4 188))) (mkPtok 42 "Pad" 67 6 189) None (mkPtok 40 "," 67 10 190)))] (mkPtok 3 "}" 67 12 191)) (mkPtok 40 "," 67 14 192)); (InerObjectField (mkSpan (mkPtok 42 "stringy" 67 16 193) (mkPtok 40 "," 69 2 200)) None (InerObjectDecl (mkSpan (mkPtok 42 "stringy" 67 16 193) (mkPtok 3 "}" 69 0 199)) (mkPtok 42 "stringy" 67 16 193) (mkPtok 2 "{" 67 24 194) [(ObjectField (mkSpan (mkPtok 42 "Pad" 68 4 195) (mkPtok 40 "," 68 25 198)) None (mkPtok 42 "Pad" 68 4 195) (Some (mkPtok 42 "metadata" 68 8 196)) (Some (mkPtok 43 "`u8 x,`" 68 17 197)) (mkPtok 40 "," 68 25 198))] (mkPtok 3 "}" 69 0 199)) (mkPtok 40 "," 69 2 200)); (MetaField (mkSpan (mkPtok 36 "repeat" 69 4 201) (mkPtok 40 "," 69 22 204)) (Some (mkPtok 36 "repeat" 69 4 201)) (mkMetaDecl (mkSpan (mkPtok 15 "string" 69 11 202) (mkPtok 40 "," 69 22 204)) (TyDynamic (mkSpan (mkPtok 15 "string" 69 11 202) (mkPtok 15 "string" 69 11 202)) (mkDynamicString (mkSpan (mkPtok 15 "string" 69 11 202) (mkPtok 15 "string" 69 11 202)) (mkPtok 15 "string" 69 11 202))) (mkPtok 42 "i8i8" 69 18 203) None (mkPtok 40 "," 69 22 204))); (CheckSumField (mkSpan (mkPtok 16 "char[]" 69 24 205) (mkPtok 40 "," 71 7 210)) (mkChecksumFieldDecl (mkSpan (mkPtok 16 "char[]" 69 24 205) (mkPtok 40 "," 71 7 210)) (Some (TyDynamic (mkSpan (mkPtok 16 "char[]" 69 24 205) (mkPtok 16 "char[]" 69 24 205)) (mkDynamicString (mkSpan (mkPtok 16 "char[]" 69 24 205) (mkPtok 16 "char[]" 69 24 205)) (mkPtok 16 "char[]" 69 24 205)))) (mkPtok 42 "As" 70 4 206) (mkCalculatedFrom (mkSpan (mkPtok 5 "@calculatedFrom(" 70 6 207) (mkPtok 6 ")" 71 5 209)) (mkPtok 5 "@calculatedFrom(" 70 6 207) (mkPtok 31 """\n""" 71 0 208) (mkPtok 6 ")" 71 5 209)) None (mkPtok 40 "," 71 7 210)))] (mkPtok 3 "}" 71 8 211)) (mkPtok 40 "," 73 4 213))); (mkFieldWithAttr (mkSpan (mkPtok 7 "@lengthOf(" 73 6 214) (mkPtok 40 "," 76 6 223)) [(FALengthOf (mkSpan (mkPtok 7 "@lengthOf(" 73 6 214) (mkPtok 6 ")" 74 0 217)) (mkLengthOf (mkSpan (mkPtok 7 "@lengthOf(" 73 6 214) (mkPtok 6 ")" 74 0 217)) (mkPtok 7 "@lengthOf(" 73 6 214) (mkPtok 42 "packetx" 73 17 215) (mkPtok 6 ")" 74 0 217))); (FALengthOf (mkSpan (mkPtok 7 "@lengthOf(" 74 2 218) (mkPtok 6 ")" 75 9 220)) (mkLengthOf (mkSpan (mkPtok 7 "@lengthOf(" 74 2 218) (mkPtok 6 ")" 75 9 220)) (mkPtok 7 "@lengthOf(" 74 2 218) (mkPtok 42 "i64_" 75 4 219) (mkPtok 6 ")" 75 9 220)))] (ObjectField (mkSpan (mkPtok 42 "body" 75 11 221) (mkPtok 40 "," 76 6 223)) None (mkPtok 42 "body" 75 11 221) None (Some (mkPtok 43 (string_of_bytes [96; 108; 105; 110; 101; 49; 10; 108; 105; 110; 101; 50; 96]%N) 75 16 222)) (mkPtok 40 "," 76 6 223))); (mkFieldWithAttr (mkSpan (mkPtok 7 "@lengthOf(" 76 7 224) (mkPtok 40 "," 98 2 271)) [(FALengthOf (mkSpan (mkPtok 7 "@lengthOf(" 76 7 224) (mkPtok 6 ")" 76 22 226)) (mkLengthOf (mkSpan (mkPtok 7 "@lengthOf(" 76 7 224) (mkPtok 6 ")" 76 22 226)) (mkPtok 7 "@lengthOf(" 76 7 224) (mkPtok 42 "roots" 76 17 225) (mkPtok 6 ")" 76 22 226)))] (MatchField (mkSpan (mkPtok 38 "match" 76 23 227) (mkPtok 40 "," 98 2 271)) (mkMatchFieldDecl (mkSpan (mkPtok 38 "match" 76 23 227) (mkPtok 3 "}" 98 0 270)) (mkPtok 38 "match" 76 23 227) (mkPtok 42 "MetaDataX" 79 0 230) (mkPtok 17 "as" 79 10 231) (mkPtok 42 "uint8x" 79 13 232) (mkPtok 2 "{" 79 20 233) [(mkMatchPair (mkSpan (mkPtok 18 "[" 80 0 235) (mkPtok 40 "," 88 0 248)) (MKList (mkKeyList (mkSpan (mkPtok 18 "[" 80 0 235) (mkPtok 13 "]" 86 2 244)) (mkPtok 18 "[" 80 0 235) (mkPtok 30 "007" 80 2 236) [((mkPtok 40 "," 83 0 239), (mkPtok 30 "255" 84 0 241)); ((mkPtok 40 "," 85 4 242), (mkPtok 30 "00" 86 0 243))] (mkPtok 13 "]" 86 2 244))) (mkPtok 39 ":" 87 4 245) (mkPtok 42 "body" 87 6 246) (Some (mkPtok 40 "," 88 0 248))); (mkMatchPair (mkSpan (mkPtok 18 "[" 88 2 249) (mkPtok 40 "," 97 0 269)) (MKList (mkKeyList (mkSpan (mkPtok 18 "[" 88 2 249) (mkPtok 13 "]" 96 4 266)) (mkPtok 18 "[" 88 2 249) (mkPtok 30 "65535" 88 4 250) [((mkPtok 40 "," 88 10 251), (mkPtok 31 """1""" 88 12 252)); ((mkPtok 40 "," 88 15 253), (mkPtok 30 "1" 89 0 255)); ((mkPtok 40 "," 89 3 256), (mkPtok 31 """\n""" 90 0 257)); ((mkPtok 40 "," 91 0 259), (mkPtok 30 "1" 91 2 260)); ((mkPtok 40 "," 91 4 261), (mkPtok 31 """CRC32""" 92 4 262)); ((mkPtok 40 "," 93 4 263), (mkPtok 30 "0" 95 4 265))] (mkPtok 13 "]" 96 4 266))) (mkPtok 39 ":" 96 6 267) (mkPtok 42 "trueish" 96 7 268) (Some (mkPtok 40 "," 97 0 269)))] (mkPtok 3 "}" 98 0 270)) (mkPtok 40 "," 98 2 271))); (mkFieldWithAttr (mkSpan (mkPtok 23 "uint64" 98 4 272) (mkPtok 40 "," 99 0 274)) [] (MetaField (mkSpan (mkPtok 23 "uint64" 98 4 272) (mkPtok 40 "," 99 0 274)) None (mkMetaDecl (mkSpan (mkPtok 23 "uint64" 98 4 272) (mkPtok 40 "," 99 0 274)) (TyBasic (mkSpan (mkPtok 23 "uint64" 98 4 272) (mkPtok 23 "uint64" 98 4 272)) (mkBasicType (mkSpan (mkPtok 23 "uint64" 98 4 272) (mkPtok 23 "uint64" 98 4 272)) (mkPtok 23 "uint64" 98 4 272))) (mkPtok 42 "Foo" 98 11 273) None (mkPtok 40 "," 99 0 274)))); (mkFieldWithAttr (mkSpan (mkPtok 42 "zchar" 99 2 275) (mkPtok 40 "," 116 8 340)) [] (InerObjectField (mkSpan (mkPtok 42 "zchar" 99 2 275) (mkPtok 40 "," 116 8 340)) None (InerObjectDecl (mkSpan (mkPtok 42 "zchar" 99 2 275) (mkPtok 3 "}" 116 7 339)) (mkPtok 42 "zchar" 99 2 275) (mkPtok 2 "{" 99 8 276) [(LengthField (mkSpan (mkPtok 42 "metadata" 99 9 277) (mkPtok 40 "," 102 6 283)) (mkLengthFieldDecl (mkSpan (mkPtok 42 "metadata" 99 9 277) (mkPtok 40 "," 102 6 283)) None (mkPtok 42 "metadata" 99 9 277) (mkLengthOf (mkSpan (mkPtok 7 "@lengthOf(" 100 0 278) (mkPtok 6 ")" 100 13 280)) (mkPtok 7 "@lengthOf(" 100 0 278) (mkPtok 42 "Pad" 100 10 279) (mkPtok 6 ")" 100 13 280)) (Some (mkPtok 43 (string_of_bytes [96; 99; 114; 108; 102; 13; 10; 108; 105; 110; 101; 96]%N) 101 0 282)) (mkPtok 40 "," 102 6 283))); (MatchField (mkSpan (mkPtok 38 "match" 103 4 284) (mkPtok 40 "," 112 5 322)) (mkMatchFieldDecl (mkSpan (mkPtok 38 "match" 103 4 284) (mkPtok 3 "}" 112 4 321)) (mkPtok 38 "match" 103 4 284) (mkPtok 42 "u" 103 10 285) (mkPtok 17 "as" 103 12 286) (mkPtok 42 "charz" 103 15 287) (mkPtok 2 "{" 103 21 288) [(mkMatchPair (mkSpan (mkPtok 30 "65535" 103 23 289) (mkPtok 42 "int" 105 4 292)) (MKDigits (mkPtok 30 "65535" 103 23 289)) (mkPtok 39 ":" 103 29 290) (mkPtok 42 "int" 105 4 292) None); (mkMatchPair (mkSpan (mkPtok 18 "[" 106 0 293) (mkPtok 40 "," 110 3 300)) (MKList (mkKeyList (mkSpan (mkPtok 18 "[" 106 0 293) (mkPtok 13 "]" 106 5 295)) (mkPtok 18 "[" 106 0 293) (mkPtok 31 """1""" 106 2 294) [] (mkPtok 13 "]" 106 5 295))) (mkPtok 39 ":" 107 0 296) (mkPtok 42 "a1" 110 0 299) (Some (mkPtok 40 "," 110 3 300))); (mkMatchPair (mkSpan (mkPtok 18 "[" 110 5 301) (mkPtok 40 "," 111 19 314)) (MKList (mkKeyList (mkSpan (mkPtok 18 "[" 110 5 301) (mkPtok 13 "]" 111 7 311)) (mkPtok 18 "[" 110 5 301) (mkPtok 30 "4294967296" 110 6 302) [((mkPtok 40 "," 110 17 303), (mkPtok 30 "00" 110 19 304)); ((mkPtok 40 "," 110 21 305), (mkPtok 31 (string_of_bytes [34; 195; 169; 116; 195; 169; 34]%N) 110 22 306)); ((mkPtok 40 "," 110 28 307), (mkPtok 31 (string_of_bytes [34; 230; 182; 136; 230; 129; 175; 34]%N) 110 30 308)); ((mkPtok 40 "," 110 35 309), (mkPtok 30 "00" 111 4 310))] (mkPtok 13 "]" 111 7 311))) (mkPtok 39 ":" 111 8 312) (mkPtok 42 "matchKey" 111 10 313) (Some (mkPtok 40 "," 111 19 314))); (mkMatchPair (mkSpan (mkPtok 18 "[" 111 21 315) (mkPtok 40 "," 111 39 320)) (MKList (mkKeyList (mkSpan (mkPtok 18 "[" 111 21 315) (mkPtok 13 "]" 111 29 317)) (mkPtok 18 "[" 111 21 315) (mkPtok 31 """a\\""" 111 23 316) [] (mkPtok 13 "]" 111 29 317))) (mkPtok 39 ":" 111 31 318) (mkPtok 42 "Logon" 111 33 319) (Some (mkPtok 40 "," 111 39 320)))] (mkPtok 3 "}" 112 4 321)) (mkPtok 40 "," 112 5 322)); (InerObjectField (mkSpan (mkPtok 36 "repeat" 113 0 323) (mkPtok 40 "," 116 4 338)) (Some (mkPtok 36 "repeat" 113 0 323)) (InerObjectDecl (mkSpan (mkPtok 42 "rootA" 113 7 324) (mkPtok 3 "}" 116 2 337)) (mkPtok 42 "rootA" 113 7 324) (mkPtok 2 "{" 113 13 325) [(LengthField (mkSpan (mkPtok 25 "int16" 113 15 326) (mkPtok 40 "," 115 1 332)) (mkLengthFieldDecl (mkSpan (mkPtok 25 "int16" 113 15 326) (mkPtok 40 "," 115 1 332)) (Some (TyBasic (mkSpan (mkPtok 25 "int16" 113 15 326) (mkPtok 25 "int16" 113 15 326)) (mkBasicType (mkSpan (mkPtok 25 "int16" 113 15 326) (mkPtok 25 "int16" 113 15 326)) (mkPtok 25 "int16" 113 15 326)))) (mkPtok 42 "Foo" 114 0 327) (mkLengthOf (mkSpan (mkPtok 7 "@lengthOf(" 114 4 328) (mkPtok 6 ")" 115 0 331)) (mkPtok 7 "@lengthOf(" 114 4 328) (mkPtok 42 "rootA" 114 15 329) (mkPtok 6 ")" 115 0 331)) None (mkPtok 40 "," 115 1 332))); (ObjectField (mkSpan (mkPtok 42 "options1" 115 2 333) (mkPtok 40 "," 116 0 336)) None (mkPtok 42 "options1" 115 2 333) None (Some (mkPtok 43 "`u8 x,`" 115 11 334)) (mkPtok 40 "," 116 0 336))] (mkPtok 3 "}" 116 2 337)) (mkPtok 40 "," 116 4 338))] (mkPtok 3 "}" 116 7 339)) (mkPtok 40 "," 116 8 340))); (mkFieldWithAttr (mkSpan (mkPtok 38 "match" 116 11 341) (mkPtok 40 "," 133 0 389)) [] (MatchField (mkSpan (mkPtok 38 "match" 116 11 341) (mkPtok 40 "," 133 0 389)) (mkMatchFieldDecl (mkSpan (mkPtok 38 "match" 116 11 341) (mkPtok 3 "}" 132 11 388)) (mkPtok 38 "match" 116 11 341) (mkPtok 42 "chars" 116 17 342) (mkPtok 17 "as" 116 23 343) (mkPtok 42 "u" 116 26 344) (mkPtok 2 "{" 119 0 347) [(mkMatchPair (mkSpan (mkPtok 18 "[" 119 2 348) (mkPtok 40 "," 124 15 367)) (MKList (mkKeyList (mkSpan (mkPtok 18 "[" 119 2 348) (mkPtok 13 "]" 124 0 364)) (mkPtok 18 "[" 119 2 348) (mkPtok 31 """it's""" 120 0 350) [((mkPtok 40 "," 120 7 351), (mkPtok 30 "007" 120 9 352)); ((mkPtok 40 "," 120 13 353), (mkPtok 31 (string_of_bytes [34; 195; 169; 116; 195; 169; 34]%N) 120 15 354)); ((mkPtok 40 "," 120 20 355), (mkPtok 31 """abc""" 120 22 356)); ((mkPtok 40 "," 120 28 357), (mkPtok 31 """\n""" 120 29 358)); ((mkPtok 40 "," 120 34 359), (mkPtok 31 """""" 123 0 362))] (mkPtok 13 "]" 124 0 364))) (mkPtok 39 ":" 124 2 365) (mkPtok 42 "repeatCount" 124 4 366) (Some (mkPtok 40 "," 124 15 367))); (mkMatchPair (mkSpan (mkPtok 30 "65535" 125 0 368) (mkPtok 40 "," 128 0 372)) (MKDigits (mkPtok 30 "65535" 125 0 368)) (mkPtok 39 ":" 127 4 370) (mkPtok 42 "Z9_" 127 5 371) (Some (mkPtok 40 "," 128 0 372))); (mkMatchPair (mkSpan (mkPtok 18 "[" 128 2 373) (mkPtok 40 "," 129 19 384)) (MKList (mkKeyList (mkSpan (mkPtok 18 "[" 128 2 373) (mkPtok 13 "]" 129 7 381)) (mkPtok 18 "[" 128 2 373) (mkPtok 30 "007" 128 4 374) [((mkPtok 40 "," 128 9 375), (mkPtok 31 """abc""" 128 11 376)); ((mkPtok 40 "," 128 16 377), (mkPtok 31 """// no comment""" 128 17 378)); ((mkPtok 40 "," 129 0 379), (mkPtok 31 (string_of_bytes [34; 230; 182; 136; 230; 129; 175; 34]%N) 129 2 380))] (mkPtok 13 "]" 129 7 381))) (mkPtok 39 ":" 129 9 382) (mkPtok 42 "falsey" 129 12 383) (Some (mkPtok 40 "," 129 19 384))); (mkMatchPair (mkSpan (mkPtok 30 "00" 130 0 385) (mkPtok 42 "string_" 132 4 387)) (MKDigits (mkPtok 30 "00" 130 0 385)) (mkPtok 39 ":" 131 0 386) (mkPtok 42 "string_" 132 4 387) None)] (mkPtok 3 "}" 132 11 388)) (mkPtok 40 "," 133 0 389))); (mkFieldWithAttr (mkSpan (mkPtok 19 "char" 133 3 390) (mkPtok 40 "," 133 20 392)) [] (MetaField (mkSpan (mkPtok 19 "char" 133 3 390) (mkPtok 40 "," 133 20 392)) None (mkMetaDecl (mkSpan (mkPtok 19 "char" 133 3 390) (mkPtok 40 "," 133 20 392)) (TyBasic (mkSpan (mkPtok 19 "char" 133 3 390) (mkPtok 19 "char" 133 3 390)) (mkBasicType (mkSpan (mkPtok 19 "char" 133 3 390) (mkPtok 19 "char" 133 3 390)) (mkPtok 19 "char" 133 3 390))) (mkPtok 42 "repeatCount" 133 8 391) None (mkPtok 40 "," 133 20 392))))] (mkPtok 3 "}" 133 22 393))); (DPacket (mkPacketDef (mkSpan (mkPtok 35 "packet" 133 24 394) (mkPtok 3 "}" 159 2 497)) None (mkPtok 35 "packet" 133 24 394) (mkPtok 42 "Foo" 133 31 395) (mkPtok 2 "{" 133 35 396) [(mkFieldWithAttr (mkSpan (mkPtok 16 "char[]" 133 36 397) (mkPtok 40 "," 136 0 403)) [] (CheckSumField (mkSpan (mkPtok 16 "char[]" 133 36 397) (mkPtok 40 "," 136 0 403)) (mkChecksumFieldDecl (mkSpan (mkPtok 16 "char[]" 133 36 397) (mkPtok 40 "," 136 0 403)) (Some (TyDynamic (mkSpan (mkPtok 16 "char[]" 133 36 397) (mkPtok 16 "char[]" 133 36 397)) (mkDynamicString (mkSpan (mkPtok 16 "char[]" 133 36 397) (mkPtok 16 "char[]" 133 36 397)) (mkPtok 16 "char[]" 133 36 397)))) (mkPtok 42 "a1" 134 0 398) (mkCalculatedFrom (mkSpan (mkPtok 5 "@calculatedFrom(" 134 3 399) (mkPtok 6 ")" 134 22 401)) (mkPtok 5 "@calculatedFrom(" 134 3 399) (mkPtok 31 """""" 134 20 400) (mkPtok 6 ")" 134 22 401)) (Some (mkPtok 43 (string_of_bytes [96; 108; 105; 110; 101; 49; 10; 108; 105; 110; 101; 50; 96]%N) 134 23 402)) (mkPtok 40 "," 136 0 403)))); (mkFieldWithAttr (mkSpan (mkPtok 21 "uint16" 136 2 404) (mkPtok 40 "," 139 14 409)) [] (MetaField (mkSpan (mkPtok 21 "uint16" 136 2 404) (mkPtok 40 "," 139 14 409)) None (mkMetaDecl (mkSpan (mkPtok 21 "uint16" 136 2 404) (mkPtok 40 "," 139 14 409)) (TyBasic (mkSpan (mkPtok 21 "uint16" 136 2 404) (mkPtok 21 "uint16" 136 2 404)) (mkBasicType (mkSpan (mkPtok 21 "uint16" 136 2 404) (mkPtok 21 "uint16" 136 2 404)) (mkPtok 21 "uint16" 136 2 404))) (mkPtok 42 "MetaDataX" 137 0 406) (Some (mkPtok 43 "`say ""hi""`" 139 4 408)) (mkPtok 40 "," 139 14 409)))); (mkFieldWithAttr (mkSpan (mkPtok 16 "char[]" 139 15 410) (mkPtok 40 "," 139 24 412)) [] (MetaField (mkSpan (mkPtok 16 "char[]" 139 15 410) (mkPtok 40 "," 139 24 412)) None (mkMetaDecl (mkSpan (mkPtok 16 "char[]" 139 15 410) (mkPtok 40 "," 139 24 412)) (TyDynamic (mkSpan (mkPtok 16 "char[]" 139 15 410) (mkPtok 16 "char[]" 139 15 410)) (mkDynamicString (mkSpan (mkPtok 16 "char[]" 139 15 410) (mkPtok 16 "char[]" 139 15 410)) (mkPtok 16 "char[]" 139 15 410))) (mkPtok 42 "A" 139 22 411) None (mkPtok 40 "," 139 24 412)))); (mkFieldWithAttr (mkSpan (mkPtok 29 "f64" 142 0 415) (mkPtok 40 "," 142 25 420)) [] (LengthField (mkSpan (mkPtok 29 "f64" 142 0 415) (mkPtok 40 "," 142 25 420)) (mkLengthFieldDecl (mkSpan (mkPtok 29 "f64" 142 0 415) (mkPtok 40 "," 142 25 420)) (Some (TyBasic (mkSpan (mkPtok 29 "f64" 142 0 415) (mkPtok 29 "f64" 142 0 415)) (mkBasicType (mkSpan (mkPtok 29 "f64" 142 0 415) (mkPtok 29 "f64" 142 0 415)) (mkPtok 29 "f64" 142 0 415)))) (mkPtok 42 "int" 142 4 416) (mkLengthOf (mkSpan (mkPtok 7 "@lengthOf(" 142 8 417) (mkPtok 6 ")" 142 23 419)) (mkPtok 7 "@lengthOf(" 142 8 417) (mkPtok 42 "Pad" 142 18 418) (mkPtok 6 ")" 142 23 419)) None (mkPtok 40 "," 142 25 420)))); (mkFieldWithAttr (mkSpan (mkPtok 22 "u32" 142 27 421) (mkPtok 40 "," 144 0 423)) [] (MetaField (mkSpan (mkPtok 22 "u32" 142 27 421) (mkPtok 40 "," 144 0 423)) None (mkMetaDecl (mkSpan (mkPtok 22 "u32" 142 27 421) (mkPtok 40 "," 144 0 423)) (TyBasic (mkSpan (mkPtok 22 "u32" 142 27 421) (mkPtok 22 "u32" 142 27 421)) (mkBasicType (mkSpan (mkPtok 22 "u32" 142 27 421) (mkPtok 22 "u32" 142 27 421)) (mkPtok 22 "u32" 142 27 421))) (mkPtok 42 "BodyLength" 143 4 422) None (mkPtok 40 "," 144 0 423)))); (mkFieldWithAttr (mkSpan (mkPtok 29 "float64" 144 2 424) (mkPtok 40 "," 149 6 432)) [] (LengthField (mkSpan (mkPtok 29 "float64" 144 2 424) (mkPtok 40 "," 149 6 432)) (mkLengthFieldDecl (mkSpan (mkPtok 29 "float64" 144 2 424) (mkPtok 40 "," 149 6 432)) (Some (TyBasic (mkSpan (mkPtok 29 "float64" 144 2 424) (mkPtok 29 "float64" 144 2 424)) (mkBasicType (mkSpan (mkPtok 29 "float64" 144 2 424) (mkPtok 29 "float64" 144 2 424)) (mkPtok 29 "float64" 144 2 424)))) (mkPtok 42 "trueish" 145 0 425) (mkLengthOf (mkSpan (mkPtok 7 "@lengthOf(" 145 8 426) (mkPtok 6 ")" 145 27 428)) (mkPtok 7 "@lengthOf(" 145 8 426) (mkPtok 42 "lengthOf" 145 18 427) (mkPtok 6 ")" 145 27 428)) (Some (mkPtok 43 (string_of_bytes [96; 99; 114; 108; 102; 13; 10; 108; 105; 110; 101; 96]%N) 148 0 431)) (mkPtok 40 "," 149 6 432)))); (mkFieldWithAttr (mkSpan (mkPtok 9 "@tag(" 149 8 433) (mkPtok 40 "," 158 7 492)) [(FATag (mkSpan (mkPtok 9 "@tag(" 149 8 433) (mkPtok 6 ")" 149 17 435)) (mkTagAttr (mkSpan (mkPtok 9 "@tag(" 149 8 433) (mkPtok 6 ")" 149 17 435)) (mkPtok 9 "@tag(" 149 8 433) (mkPtok 30 "255" 149 13 434) (mkPtok 6 ")" 149 17 435)))] (MatchField (mkSpan (mkPtok 38 "match" 149 19 436) (mkPtok 40 "," 158 7 492)) (mkMatchFieldDecl (mkSpan (mkPtok 38 "match" 149 19 436) (mkPtok 3 "}" 158 5 491)) (mkPtok 38 "match" 149 19 436) (mkPtok 42 "Z9_" 149 25 437) (mkPtok 17 "as" 149 29 438) (mkPtok 42 "tag" 149 32 439) (mkPtok 2 "{" 149 36 440) [(mkMatchPair (mkSpan (mkPtok 18 "[" 149 38 441) (mkPtok 40 "," 150 8 453)) (MKList (mkKeyList (mkSpan (mkPtok 18 "[" 149 38 441) (mkPtok 13 "]" 150 0 450)) (mkPtok 18 "[" 149 38 441) (mkPtok 31 """a\""b""" 149 40 442) [((mkPtok 40 "," 149 46 443), (mkPtok 30 "4294967296" 149 47 444)); ((mkPtok 40 "," 149 59 445), (mkPtok 31 """{,}""" 149 62 446)); ((mkPtok 40 "," 149 68 447), (mkPtok 31 """{,}""" 149 69 448))] (mkPtok 13 "]" 150 0 450))) (mkPtok 39 ":" 150 2 451) (mkPtok 42 "Pad" 150 4 452) (Some (mkPtok 40 "," 150 8 453))); (mkMatchPair (mkSpan (mkPtok 30 "1" 150 10 454) (mkPtok 40 "," 150 23 457)) (MKDigits (mkPtok 30 "1" 150 10 454)) (mkPtok 39 ":" 150 12 455) (mkPtok 42 "lengthOf" 150 14 456) (Some (mkPtok 40 "," 150 23 457))); (mkMatchPair (mkSpan (mkPtok 30 "0123456789" 150 25 458) (mkPtok 40 "," 150 48 461)) (MKDigits (mkPtok 30 "0123456789" 150 25 458)) (mkPtok 39 ":" 150 36 459) (mkPtok 42 "msg_type" 150 38 460) (Some (mkPtok 40 "," 150 48 461))); (mkMatchPair (mkSpan (mkPtok 31 """// no comment""" 150 50 462) (mkPtok 40 "," 151 14 465)) (MKString (mkPtok 31 """// no comment""" 150 50 462)) (mkPtok 39 ":" 150 65 463) (mkPtok 42 "BodyLength" 151 4 464) (Some (mkPtok 40 "," 151 14 465))); (mkMatchPair (mkSpan (mkPtok 18 "[" 151 16 466) (mkPtok 42 "string_" 151 26 470)) (MKList (mkKeyList (mkSpan (mkPtok 18 "[" 151 16 466) (mkPtok 13 "]" 151 22 468)) (mkPtok 18 "[" 151 16 466) (mkPtok 31 """1""" 151 18 467) [] (mkPtok 13 "]" 151 22 468))) (mkPtok 39 ":" 151 24 469) (mkPtok 42 "string_" 151 26 470) None); (mkMatchPair (mkSpan (mkPtok 18 "[" 151 34 471) (mkPtok 42 "asx" 158 2 490)) (MKList (mkKeyList (mkSpan (mkPtok 18 "[" 151 34 471) (mkPtok 13 "]" 157 4 487)) (mkPtok 18 "[" 151 34 471) (mkPtok 30 "3" 151 35 472) [((mkPtok 40 "," 151 37 473), (mkPtok 30 "0" 151 39 474)); ((mkPtok 40 "," 151 40 475), (mkPtok 30 "1" 151 41 476)); ((mkPtok 40 "," 151 43 477), (mkPtok 30 "1" 151 45 478)); ((mkPtok 40 "," 152 0 479), (mkPtok 31 (string_of_bytes [34; 92; 195; 169; 34]%N) 152 2 480)); ((mkPtok 40 "," 153 0 482), (mkPtok 31 """""" 154 4 483)); ((mkPtok 40 "," 155 4 484), (mkPtok 30 "00" 155 6 485))] (mkPtok 13 "]" 157 4 487))) (mkPtok 39 ":" 158 0 489) (mkPtok 42 "asx" 158 2 490) None)] (mkPtok 3 "}" 158 5 491)) (mkPtok 40 "," 158 7 492))); (mkFieldWithAttr (mkSpan (mkPtok 42 "body" 158 9 493) (mkPtok 40 "," 159 0 496)) [] (ObjectField (mkSpan (mkPtok 42 "body" 158 9 493) (mkPtok 40 "," 159 0 496)) None (mkPtok 42 "body" 158 9 493) None (Some (mkPtok 43 "`say ""hi""`" 158 14 494)) (mkPtok 40 "," 159 0 496)))] (mkPtok 3 "}" 159 2 497))); (DOption (mkOptionDef (mkSpan (mkPtok 1 "options" 159 3 498) (mkPtok 3 "}" 164 17 514)) (mkPtok 1 "options" 159 3 498) (mkPtok 2 "{" 159 11 499) [(mkOptionDecl (mkSpan (mkPtok 42 "x" 159 13 500) (mkPtok 41 ";" 160 0 503)) (mkPtok 42 "x" 159 13 500) (mkPtok 4 "=" 159 15 501) (VPaddingChar (mkSpan (mkPtok 33 "'0'" 159 16 502) (mkPtok 33 "'0'" 159 16 502)) (mkPtok 33 "'0'" 159 16 502)) (Some (mkPtok 41 ";" 160 0 503))); (mkOptionDecl (mkSpan (mkPtok 42 "u8x" 160 2 504) (mkPtok 41 ";" 161 5 508)) (mkPtok 42 "u8x" 160 2 504) (mkPtok 4 "=" 161 0 506) (VType (mkSpan (mkPtok 23 "u64" 161 2 507) (mkPtok 23 "u64" 161 2 507)) (TyBasic (mkSpan (mkPtok 23 "u64" 161 2 507) (mkPtok 23 "u64" 161 2 507)) (mkBasicType (mkSpan (mkPtok 23 "u64" 161 2 507) (mkPtok 23 "u64" 161 2 507)) (mkPtok 23 "u64" 161 2 507)))) (Some (mkPtok 41 ";" 161 5 508))); (mkOptionDecl (mkSpan (mkPtok 42 "string_" 164 0 511) (mkPtok 31 """a\""b""" 164 10 513)) (mkPtok 42 "string_" 164 0 511) (mkPtok 4 "=" 164 8 512) (VString (mkSpan (mkPtok 31 """a\""b""" 164 10 513) (mkPtok 31 """a\""b""" 164 10 513)) (mkPtok 31 """a\""b""" 164 10 513)) None)] (mkPtok 3 "}" 164 17 514)))])).
-Eval vm_compute in ("<<<M296>>>" ++ check (runes_of_ascii "
-packet charz{ repeat u16 Foo`{ , }`// c
+Eval vm_compute in ("<<<M236>>>" ++ check (runes_of_ascii "MetaData T { char[ 7 ] len
+    `tab	here`, }")).
+Eval vm_compute in ("<<<M246>>>" ++ check (runes_of_ascii "root packet calculatedFrom
+{}	packet
+u
+    { u64  len
+, }
+")).
+Eval vm_compute in ("<<<M256>>>" ++ check (runes_of_ascii "packet As
+{
+    MetaDataX  crc,repeat char[] BodyLength,
+    repeat
+i8 Pad
+    //x
+    `
+`
+    , u8// trailing space 
+pack @lengthOf( Foo ) `say ""hi""` , @tag( 0123456789
+) float {i32
+    falsey , } ,  match // c
+roots as // a // b
+Packet{
+""`tick`""
+    :
+float
+,  10 :	body [ 7,00 , // " ++ [27880; 37322]%N ++ runes_of_ascii "
+7 ,
+// 50% %s
+/// triple
+3 ,  """ ++ [233]%N ++ runes_of_ascii "t" ++ [233]%N ++ runes_of_ascii """ , 65535
 ,
+""\n"" ] : crc/// triple
+, } ,uint16 metadata ,
+    }
+    MetaData
+    // `tick` ""quote"" 'q'
+    options1 {
+// 50% %s
 //
-//
-} options
-    { crc = """ ++ [28040; 24687]%N ++ runes_of_ascii """ ;	}")).
+char[
+// @lengthOf(
+// packet A { u8 x, }
+65535 ] roots `crlf
+line`
+,	i16  MetaDataX , }
+    // @lengthOf(
+    options
+{ repeatCount = char;
+charz=
+    false rootA=
+    255  ; packetx
+//x
+// packet A { u8 x, }
+= '\x00' ; } options// " ++ [128512]%N ++ runes_of_ascii " emoji
+{ Foo =  '\x00'; uint8x = true
+; x_y_z =  7 //
+; } packet Logon{ }")).
+Eval vm_compute in ("<<<M266>>>" ++ check (runes_of_ascii "packet // 50% %s
+o { @tag( 255 )rootA
+chars , u { len @lengthOf( msg_type )`tab	here`,// " ++ [128512]%N ++ runes_of_ascii " emoji
+char[] pack `a\`
+,} ,@lengthOf(uint8x )match
+// " ++ [27880; 37322]%N ++ runes_of_ascii "
+// `tick` ""quote"" 'q'
+MetaDataX as BodyLength
+    {""CRC32"" :// trailing space 
+A
+} , @tag(
+    65535)	int32 u8x @calculatedFrom( ""// no comment"" )
+`two words` ,	@tag( 42 ) match zchar as stringy { [
+4294967296
+]
+    :
+    i64_ }, }root
+    packet
+options1
+{ repeat As`// not a comment` ,
+    repeat lengthOf {A chars , } , packetx  { f32 metadata ,
+int64 u8x
+    // " ++ [128512]%N ++ runes_of_ascii " emoji
+    @calculatedFrom(""1""  ) , int16 rootA , repeat
+    i16	_x
+, }
+// " ++ [27880; 37322]%N ++ runes_of_ascii "
+// c
+, repeat x_y_z {repeat
+    u16 Header
+    `100% of %d` ,
+    // @lengthOf(
+    }, match x // packet A { u8 x, }
+as
+charz
+    { ""// no comment""	:
+    // " ++ [128512]%N ++ runes_of_ascii " emoji
+    As
+, [ 65535
+,4294967296] :i8i8 , [
+""x y"" //x
+,42	,4294967296 ] : i8i8 ,[007,3  ]: options1
+,""a\\"" : f32a ,	} , repeat body , @calculatedFrom(// trailing space 
+""" ++ [233]%N ++ runes_of_ascii "t" ++ [233]%N ++ runes_of_ascii """ ) char[ 007 ]
+trueish @lengthOf( // c
+_x) , }
+    MetaData packetx { }options {
+    lengthOf
+= 7 lengthOf
+    = ' ' ; string_=
+0
+;
+}")).
+Eval vm_compute in ("<<<M276>>>" ++ check (runes_of_ascii "  packet
+u8x// 50% %s
+{ @rightPad
+    (
+    ' ' ) repeat MetaDataX`it's`	, }
+")).
+Eval vm_compute in ("<<<M286>>>" ++ check (runes_of_ascii "packet falsey { @calculatedFrom( ""\n"" ) pack T `
+`, @rightPad /// triple
+(
+)char[] string_
+/// triple
+// " ++ [128512]%N ++ runes_of_ascii " emoji
+,
+    //
+    } MetaData	string_ { u16 trueish
+,
+    float x_y_z `u8 x,` ,
+zchar[ 65535 ]	float ,
+lengthOf repeatCount`tab	here` ,
+    metadata // trailing space 
+chars`say ""hi""` , }
+")).
+Eval vm_compute in ("<<<T286>>>" ++ terms [mkTok 35 "packet" 1 0 false; mkTok 42 "falsey" 1 7 false; mkTok 2 "{" 1 14 false; mkTok 5 "@calculatedFrom(" 1 16 false; mkTok 31 """\n""" 1 33 false; mkTok 6 ")" 1 38 false; mkTok 42 "pack" 1 40 false; mkTok 42 "T" 1 45 false; mkTok 43 (string_of_bytes [96; 10; 96]%N) 1 47 false; mkTok 40 "," 2 1 false; mkTok 32 "@rightPad" 2 3 false; mkTok 44 "/// triple" 2 13 true; mkTok 8 "(" 3 0 false; mkTok 6 ")" 4 0 false; mkTok 16 "char[]" 4 1 false; mkTok 42 "string_" 4 8 false; mkTok 44 "/// triple" 5 0 true; mkTok 44 (string_of_bytes [47; 47; 32; 240; 159; 152; 128; 32; 101; 109; 111; 106; 105]%N) 6 0 true; mkTok 40 "," 7 0 false; mkTok 44 "//" 8 4 true; mkTok 3 "}" 9 4 false; mkTok 37 "MetaData" 9 6 false; mkTok 42 "string_" 9 15 false; mkTok 2 "{" 9 23 false; mkTok 21 "u16" 9 25 false; mkTok 42 "trueish" 9 29 false; mkTok 40 "," 10 0 false; mkTok 42 "float" 11 4 false; mkTok 42 "x_y_z" 11 10 false; mkTok 43 "`u8 x,`" 11 16 false; mkTok 40 "," 11 24 false; mkTok 14 "zchar[" 12 0 false; mkTok 30 "65535" 12 7 false; mkTok 13 "]" 12 13 false; mkTok 42 "float" 12 15 false; mkTok 40 "," 12 21 false; mkTok 42 "lengthOf" 13 0 false; mkTok 42 "repeatCount" 13 9 false; mkTok 43 (string_of_bytes [96; 116; 97; 98; 9; 104; 101; 114; 101; 96]%N) 13 20 false; mkTok 40 "," 13 31 false; mkTok 42 "metadata" 14 4 false; mkTok 44 "// trailing space " 14 13 true; mkTok 42 "chars" 15 0 false; mkTok 43 "`say ""hi""`" 15 5 false; mkTok 40 "," 15 16 false; mkTok 3 "}" 15 18 false; mkTok 0 "<EOF>" 16 0 false] (mkPacket (mkPtok 35 "packet" 1 0 0) (Some (mkPtok 3 "}" 15 18 45)) [(DPacket (mkPacketDef (mkSpan (mkPtok 35 "packet" 1 0 0) (mkPtok 3 "}" 9 4 20)) None (mkPtok 35 "packet" 1 0 0) (mkPtok 42 "falsey" 1 7 1) (mkPtok 2 "{" 1 14 2) [(mkFieldWithAttr (mkSpan (mkPtok 5 "@calculatedFrom(" 1 16 3) (mkPtok 40 "," 2 1 9)) [(FACalculatedFrom (mkSpan (mkPtok 5 "@calculatedFrom(" 1 16 3) (mkPtok 6 ")" 1 38 5)) (mkCalculatedFrom (mkSpan (mkPtok 5 "@calculatedFrom(" 1 16 3) (mkPtok 6 ")" 1 38 5)) (mkPtok 5 "@calculatedFrom(" 1 16 3) (mkPtok 31 """\n""" 1 33 4) (mkPtok 6 ")" 1 38 5)))] (ObjectField (mkSpan (mkPtok 42 "pack" 1 40 6) (mkPtok 40 "," 2 1 9)) None (mkPtok 42 "pack" 1 40 6) (Some (mkPtok 42 "T" 1 45 7)) (Some (mkPtok 43 (string_of_bytes [96; 10; 96]%N) 1 47 8)) (mkPtok 40 "," 2 1 9))); (mkFieldWithAttr (mkSpan (mkPtok 32 "@rightPad" 2 3 10) (mkPtok 40 "," 7 0 18)) [(FAPadding (mkSpan (mkPtok 32 "@rightPad" 2 3 10) (mkPtok 6 ")" 4 0 13)) (mkPaddingAttr (mkSpan (mkPtok 32 "@rightPad" 2 3 10) (mkPtok 6 ")" 4 0 13)) (mkPtok 32 "@rightPad" 2 3 10) (mkPtok 8 "(" 3 0 12) None (mkPtok 6 ")" 4 0 13)))] (MetaField (mkSpan (mkPtok 16 "char[]" 4 1 14) (mkPtok 40 "," 7 0 18)) None (mkMetaDecl (mkSpan (mkPtok 16 "char[]" 4 1 14) (mkPtok 40 "," 7 0 18)) (TyDynamic (mkSpan (mkPtok 16 "char[]" 4 1 14) (mkPtok 16 "char[]" 4 1 14)) (mkDynamicString (mkSpan (mkPtok 16 "char[]" 4 1 14) (mkPtok 16 "char[]" 4 1 14)) (mkPtok 16 "char[]" 4 1 14))) (mkPtok 42 "string_" 4 8 15) None (mkPtok 40 "," 7 0 18))))] (mkPtok 3 "}" 9 4 20))); (DMeta (mkMetaDef (mkSpan (mkPtok 37 "MetaData" 9 6 21) (mkPtok 3 "}" 15 18 45)) (mkPtok 37 "MetaData" 9 6 21) (mkPtok 42 "string_" 9 15 22) (mkPtok 2 "{" 9 23 23) [(MIDecl (mkMetaDecl (mkSpan (mkPtok 21 "u16" 9 25 24) (mkPtok 40 "," 10 0 26)) (TyBasic (mkSpan (mkPtok 21 "u16" 9 25 24) (mkPtok 21 "u16" 9 25 24)) (mkBasicType (mkSpan (mkPtok 21 "u16" 9 25 24) (mkPtok 21 "u16" 9 25 24)) (mkPtok 21 "u16" 9 25 24))) (mkPtok 42 "trueish" 9 29 25) None (mkPtok 40 "," 10 0 26))); (MIRef (mkRefMetaDecl (mkSpan (mkPtok 42 "float" 11 4 27) (mkPtok 40 "," 11 24 30)) (mkPtok 42 "float" 11 4 27) (mkPtok 42 "x_y_z" 11 10 28) (Some (mkPtok 43 "`u8 x,`" 11 16 29)) (mkPtok 40 "," 11 24 30))); (MIDecl (mkMetaDecl (mkSpan (mkPtok 14 "zchar[" 12 0 31) (mkPtok 40 "," 12 21 35)) (TyFixed (mkSpan (mkPtok 14 "zchar[" 12 0 31) (mkPtok 13 "]" 12 13 33)) (mkFixedString (mkSpan (mkPtok 14 "zchar[" 12 0 31) (mkPtok 13 "]" 12 13 33)) (mkPtok 14 "zchar[" 12 0 31) (mkPtok 30 "65535" 12 7 32) (mkPtok 13 "]" 12 13 33))) (mkPtok 42 "float" 12 15 34) None (mkPtok 40 "," 12 21 35))); (MIRef (mkRefMetaDecl (mkSpan (mkPtok 42 "lengthOf" 13 0 36) (mkPtok 40 "," 13 31 39)) (mkPtok 42 "lengthOf" 13 0 36) (mkPtok 42 "repeatCount" 13 9 37) (Some (mkPtok 43 (string_of_bytes [96; 116; 97; 98; 9; 104; 101; 114; 101; 96]%N) 13 20 38)) (mkPtok 40 "," 13 31 39))); (MIRef (mkRefMetaDecl (mkSpan (mkPtok 42 "metadata" 14 4 40) (mkPtok 40 "," 15 16 44)) (mkPtok 42 "metadata" 14 4 40) (mkPtok 42 "chars" 15 0 42) (Some (mkPtok 43 "`say ""hi""`" 15 5 43)) (mkPtok 40 "," 15 16 44)))] (mkPtok 3 "}" 15 18 45)))])).
+Eval vm_compute in ("<<<M296>>>" ++ check (runes_of_ascii "root packet falsey{string	stringy
+    `tab	here`, repeat float As
+, char[] Packet ,
+i8 //
+body
+@lengthOf(// @lengthOf(
+T
+    ) ,repeat
+A // packet A { u8 x, }
+`a\` /// triple
+, u8x @calculatedFrom( ""\" ++ [233]%N ++ runes_of_ascii """)`tab	here`
+,float
+    ,char[
+    42 ]
+    i8i8
+    `u8 x,` , // a // b
+}")).
 Eval vm_compute in ("<<<M306>>>" ++ check (runes_of_ascii "root packet SimpleMessage {
     uint16 MsgType `" ++ [28040; 24687; 31867; 22411]%N ++ runes_of_ascii "`,
     string JsonBody `Json" ++ [23383; 31526; 20018; 28040; 24687; 20307]%N ++ runes_of_ascii "`,
 }")).
-Eval vm_compute in ("<<<M316>>>" ++ check (runes_of_ascii "packet
-{
-asx Z9_ Header// " ++ [128512]%N ++ runes_of_ascii " emoji
-,} packet pack
-    { }
+Eval vm_compute in ("<<<M316>>>" ++ check (runes_of_ascii "MetaData
+{	crc char[] Z9_`{ , }`,} options { tag =
+    false } packet
+// a // b
+// @lengthOf(
+Pad {Foo @calculatedFrom( // `tick` ""quote"" 'q'
+""a\\"" ) ,
+    trueish ,
+    char[ 00]
+    // " ++ [128512]%N ++ runes_of_ascii " emoji
+    packetx , }
 ")).
-Eval vm_compute in ("<<<M326>>>" ++ check (runes_of_ascii "packet
-asx
-{ Header Z9_// " ++ [128512]%N ++ runes_of_ascii " emoji
-,} packet pack
-    { }
+Eval vm_compute in ("<<<M326>>>" ++ check (runes_of_ascii "MetaData
+crc	{ Z9_ char[]`{ , }`,} options { tag =
+    false } packet
+// a // b
+// @lengthOf(
+Pad {Foo @calculatedFrom( // `tick` ""quote"" 'q'
+""a\\"" ) ,
+    trueish ,
+    char[ 00]
+    // " ++ [128512]%N ++ runes_of_ascii " emoji
+    packetx , }
 ")).
-Eval vm_compute in ("<<<M336>>>" ++ check (runes_of_ascii "packet
-asx
-{ Z9_ Header// " ++ [128512]%N ++ runes_of_ascii " emoji
-}, packet pack
-    { }
+Eval vm_compute in ("<<<M336>>>" ++ check (runes_of_ascii "MetaData
+crc	{ char[] Z9_,`{ , }`} options { tag =
+    false } packet
+// a // b
+// @lengthOf(
+Pad {Foo @calculatedFrom( // `tick` ""quote"" 'q'
+""a\\"" ) ,
+    trueish ,
+    char[ 00]
+    // " ++ [128512]%N ++ runes_of_ascii " emoji
+    packetx , }
 ")).
-Eval vm_compute in ("<<<M346>>>" ++ check (runes_of_ascii "packet
-asx
-{ Z9_ Header// " ++ [128512]%N ++ runes_of_ascii " emoji
-,} pack packet
-    { }
+Eval vm_compute in ("<<<M346>>>" ++ check (runes_of_ascii "MetaData
+crc	{ char[] Z9_`{ , }`,options } { tag =
+    false } packet
+// a // b
+// @lengthOf(
+Pad {Foo @calculatedFrom( // `tick` ""quote"" 'q'
+""a\\"" ) ,
+    trueish ,
+    char[ 00]
+    // " ++ [128512]%N ++ runes_of_ascii " emoji
+    packetx , }
 ")).
-Eval vm_compute in ("<<<M356>>>" ++ check (runes_of_ascii "packet
-asx
-{ Z9_ Header// " ++ [128512]%N ++ runes_of_ascii " emoji
-,} packet pack
-    } {
+Eval vm_compute in ("<<<M356>>>" ++ check (runes_of_ascii "MetaData
+crc	{ char[] Z9_`{ , }`,} options tag { =
+    false } packet
+// a // b
+// @lengthOf(
+Pad {Foo @calculatedFrom( // `tick` ""quote"" 'q'
+""a\\"" ) ,
+    trueish ,
+    char[ 00]
+    // " ++ [128512]%N ++ runes_of_ascii " emoji
+    packetx , }
 ")).
-Eval vm_compute in ("<<<M366>>>" ++ check (runes_of_ascii "packet
-asx
-{ Z9_ Header/")).
-Eval vm_compute in ("<<<M376>>>" ++ check (runes_of_ascii "packet
-asx
-{ Z9_ Header// " ++ [128512]%N ++ runes_of_ascii " emoji
-,} packet pack
-    { #}
+Eval vm_compute in ("<<<M366>>>" ++ check (runes_of_ascii "MetaData
+crc	{ char[] Z9_`{ , }`,} options { tag false
+    = } packet
+// a // b
+// @lengthOf(
+Pad {Foo @calculatedFrom( // `tick` ""quote"" 'q'
+""a\\"" ) ,
+    trueish ,
+    char[ 00]
+    // " ++ [128512]%N ++ runes_of_ascii " emoji
+    packetx , }
 ")).
-Eval vm_compute in ("<<<M386>>>" ++ check (runes_of_ascii "MetaData MetaData o { char[ // `tick` ""quote"" 'q'
-3] body, } packet o{
-u8
-charz ,
-    }")).
-Eval vm_compute in ("<<<M396>>>" ++ check (runes_of_ascii "MetaData o { { char[ // `tick` ""quote"" 'q'
-3] body, } packet o{
-u8
-charz ,
-    }")).
-Eval vm_compute in ("<<<M406>>>" ++ check (runes_of_ascii "MetaData o { char[ // `tick` ""quote"" 'q'
-3 3] body, } packet o{
-u8
-charz ,
-    }")).
-Eval vm_compute in ("<<<M416>>>" ++ check (runes_of_ascii "MetaData o { char[ // `tick` ""quote"" 'q'
-3] body body, } packet o{
-u8
-charz ,
-    }")).
-Eval vm_compute in ("<<<M426>>>" ++ check (runes_of_ascii "MetaData o { char[ // `tick` ""quote"" 'q'
-3] body, } } packet o{
-u8
-charz ,
-    }")).
-Eval vm_compute in ("<<<M436>>>" ++ check (runes_of_ascii "MetaData o { char[ // `tick` ""quote"" 'q'
-3] body, } packet o o{
-u8
-charz ,
-    }")).
-Eval vm_compute in ("<<<M446>>>" ++ check (runes_of_ascii "MetaData o { char[ // `tick` ""quote"" 'q'
-3] body, } packet o{
-u8 u8
-charz ,
-    }")).
-Eval vm_compute in ("<<<M456>>>" ++ check (runes_of_ascii "MetaData o { char[ // `tick` ""quote"" 'q'
-3] body, } packet o{
-u8
-charz , ,
-    }")).
-Eval vm_compute in ("<<<M466>>>" ++ check (runes_of_ascii "MetaData o { char[ // `tick` ""quote""")).
-Eval vm_compute in ("<<<M476>>>" ++ check (runes_of_ascii "MetaData o { char[ // `tick` ""quote"" 'q'
-3] body, } packet o%{
-u8
-charz ,
-    }")).
-Eval vm_compute in ("<<<M486>>>" ++ check (runes_of_ascii " {calculatedFrom =	int8 ;}
-
+Eval vm_compute in ("<<<M376>>>" ++ check (runes_of_ascii "MetaData
+crc	{ char[] Z9_`{ , }`,} options { tag =
+    false packet }
+// a // b
+// @lengthOf(
+Pad {Foo @calculatedFrom( // `tick` ""quote"" 'q'
+""a\\"" ) ,
+    trueish ,
+    char[ 00]
+    // " ++ [128512]%N ++ runes_of_ascii " emoji
+    packetx , }
 ")).
-Eval vm_compute in ("<<<M496>>>" ++ check (runes_of_ascii "options { =	int8 ;}
-
+Eval vm_compute in ("<<<M386>>>" ++ check (runes_of_ascii "MetaData
+crc	{ char[] Z9_`{ , }`,} options { tag =
+    false } packet
+// a // b
+// @lengthOf(
+{ Pad Foo @calculatedFrom( // `tick` ""quote"" 'q'
+""a\\"" ) ,
+    trueish ,
+    char[ 00]
+    // " ++ [128512]%N ++ runes_of_ascii " emoji
+    packetx , }
 ")).
-Eval vm_compute in ("<<<M506>>>" ++ check (runes_of_ascii "options {calculatedFrom =	 ;}
-
+Eval vm_compute in ("<<<M396>>>" ++ check (runes_of_ascii "MetaData
+crc	{ char[] Z9_`{ , }`,} options { tag =
+    false } packet
+// a // b
+// @lengthOf(
+Pad {@calculatedFrom( Foo // `tick` ""quote"" 'q'
+""a\\"" ) ,
+    trueish ,
+    char[ 00]
+    // " ++ [128512]%N ++ runes_of_ascii " emoji
+    packetx , }
 ")).
-Eval vm_compute in ("<<<M516>>>" ++ check (runes_of_ascii "options {calculatedFrom =	int8 ;
-
+Eval vm_compute in ("<<<M406>>>" ++ check (runes_of_ascii "MetaData
+crc	{ char[] Z9_`{ , }`,} options { tag =
+    false } packet
+// a // b
+// @lengthOf(
+Pad {Foo @calculatedFrom( // `tick` ""quote"" 'q'
+) ""a\\"" ,
+    trueish ,
+    char[ 00]
+    // " ++ [128512]%N ++ runes_of_ascii " emoji
+    packetx , }
 ")).
-Eval vm_compute in ("<<<M526>>>" ++ check (runes_of_ascii "options " ++ [233]%N ++ runes_of_ascii "{calculatedFrom =	int8 ;}
-
+Eval vm_compute in ("<<<M416>>>" ++ check (runes_of_ascii "MetaData
+crc	{ char[] Z9_`{ , }`,} options { tag =
+    false } packet
+// a // b
+// @lengthOf(
+Pad {Foo @calculatedFrom( // `tick` ""quote"" 'q'
+""a\\"" ) trueish
+    , ,
+    char[ 00]
+    // " ++ [128512]%N ++ runes_of_ascii " emoji
+    packetx , }
 ")).
-Eval vm_compute in ("<<<M536>>>" ++ check (runes_of_ascii "options {calcul@atedFrom =	int8 ;}
-
+Eval vm_compute in ("<<<M426>>>" ++ check (runes_of_ascii "MetaData
+crc	{ char[] Z9_`{ , }`,} options { tag =
+    false } packet
+// a // b
+// @lengthOf(
+Pad {Foo @calculatedFrom( // `tick` ""quote"" 'q'
+""a\\"" ) ,
+    trueish char[
+    , 00]
+    // " ++ [128512]%N ++ runes_of_ascii " emoji
+    packetx , }
 ")).
-Eval vm_compute in ("<<<M546>>>" ++ check (runes_of_ascii "
-MetaData chars {Logon packetx,
-    float calculatedFrom
-,  u32 i64_ }	,")).
-Eval vm_compute in ("<<<M556>>>" ++ check (runes_of_ascii "
-MetaData chars {Logon packetx,
-    float float calculatedFrom
-,  u32 i64_ ,	}")).
+Eval vm_compute in ("<<<M436>>>" ++ check (runes_of_ascii "MetaData
+crc	{ char[] Z9_`{ , }`,} options { tag =
+    false } packet
+// a // b
+// @lengthOf(
+Pad {Foo @calculatedFrom( // `tick` ""quote"" 'q'
+""a\\"" ) ,
+    trueish ,
+    char[ ]00
+    // " ++ [128512]%N ++ runes_of_ascii " emoji
+    packetx , }
+")).
+Eval vm_compute in ("<<<M446>>>" ++ check (runes_of_ascii "MetaData
+crc	{ char[] Z9_`{ , }`,} options { tag =
+    false } packet
+// a // b
+// @lengthOf(
+Pad {Foo @calculatedFrom( // `tick` ""quote"" 'q'
+""a\\"" ) ,
+    trueish ,
+    char[ 00]
+    // " ++ [128512]%N ++ runes_of_ascii " emoji
+    , packetx }
+")).
+Eval vm_compute in ("<<<M456>>>" ++ check (runes_of_ascii "MetaData
+crc	{ char[] Z9_`{ , }`,} options { tag =
+    false } packet
+// a // b
+// @lengthOf(
+Pad {Foo @calculatedFrom( // `tick` ""quote"" 'q'
+""a\\"" ) ,
+    trueish ,
+    char[ 00]
+    // " ++ [128512]%N ++ runes_of_ascii " emoji
+    packetx , root
+")).
+Eval vm_compute in ("<<<M466>>>" ++ check (runes_of_ascii "MetaData
+crc	{ char[] Z9_`{ , }`,} options { tag =
+    false } packet
+// a // b
+// @lengthOf(
+Pad {Foo @calculatedFrom( // `tick` ""quote"" 'q'
+""a\\"" ) ,
+    trueish ,
+    char[ 0#0]
+    // " ++ [128512]%N ++ runes_of_ascii " emoji
+    packetx , }
+")).
+Eval vm_compute in ("<<<M476>>>" ++ check (runes_of_ascii "MetaData
+crc	{ char[] Z9_`{ , }`,} options { tag =
+    false } packet
+// a // b
+// @lengthOf(
+Pad {Foo @calculatedFrom( // `tick` ""quote" ++ [127]%N ++ runes_of_ascii """ 'q'
+""a\\"" ) ,
+    trueish ,
+    char[ 00]
+    // " ++ [128512]%N ++ runes_of_ascii " emoji
+    packetx , }
+")).
+Eval vm_compute in ("<<<M486>>>" ++ check (runes_of_ascii "root packet _x	{ @rightPad (
+' ' ) string u8x @lengthOf(
+    _x
+) , repeat repeat Pad  { // " ++ [128512]%N ++ runes_of_ascii " emoji
+As
+// `tick` ""quote"" 'q'
+//x
+{matchKey chars,
+} , }, }")).
+Eval vm_compute in ("<<<M496>>>" ++ check (runes_of_ascii "root packet _x	{ @rightPad (
+' ' ) string true @lengthOf(
+    _x
+) , repeat Pad  { // " ++ [128512]%N ++ runes_of_ascii " emoji
+As
+// `tick` ""quote"" 'q'
+//x
+{matchKey chars,
+} , }, }")).
+Eval vm_compute in ("<<<M506>>>" ++ check (runes_of_ascii "root packet _x	{ @rightPad (
+' ' ) string string u8x @lengthOf(
+    _x
+) , repeat Pad  { // " ++ [128512]%N ++ runes_of_ascii " emoji
+As
+// `tick` ""quote"" 'q'
+//x
+{matchKey chars,
+} , }, }")).
+Eval vm_compute in ("<<<M516>>>" ++ check (runes_of_ascii "root packet _x	{ @rightPad (
+' ' ) string u8x @lengthOf(
+    _x
+) , repeat Pad  { // " ++ [128512]%N ++ runes_of_ascii " emoji
+As
+// `tick` ""quote"" 'q'
+//x
+{matchKey chars,
+}  }, }")).
+Eval vm_compute in ("<<<M526>>>" ++ check (runes_of_ascii "root packet _x	{ @rightPad (
+' ' ) string u8x @lengthOf(
+    _x
+) , repeat Pad  { // " ++ [128512]%N ++ runes_of_ascii " emoji
+As
+// `tick` ""quote"" 'q'
+//x
+{matchKey chars,
+} , },")).
+Eval vm_compute in ("<<<M536>>>" ++ check (runes_of_ascii "root packet _x	{ @rightPad (
+' ' ) string u8x @lengthOf(
+    _x
+) , repeat Pad  int8 // " ++ [128512]%N ++ runes_of_ascii " emoji
+As
+// `tick` ""quote"" 'q'
+//x
+{matchKey chars,
+} , }, }")).
+Eval vm_compute in ("<<<M546>>>" ++ check (runes_of_ascii "root packet _x	{ @rightPad (
+' ' ) string u8x @lengthOf(
+    _x
+) , repeat Pad  { // " ++ [128512]%N ++ runes_of_ascii " emoji
+As
+// `tic@tagk` ""quote"" 'q'
+//x
+{matchKey chars,
+} , }, }")).
+Eval vm_compute in ("<<<M556>>>" ++ check (runes_of_ascii "root p'acket _x	{ @rightPad (
+' ' ) string u8x @lengthOf(
+    _x
+) , repeat Pad  { // " ++ [128512]%N ++ runes_of_ascii " emoji
+As
+// `tick` ""quote"" 'q'
+//x
+{matchKey chars,
+} , }, }")).
 Eval vm_compute in ("<<<M566>>>" ++ check (runes_of_ascii "
 	 ")).
-Eval vm_compute in ("<<<T566>>>" ++ terms [mkTok 0 "<EOF>" 2 2 false] (mkPacket (mkPtok 0 "<EOF>" 2 2 0) None [])).
 Eval vm_compute in ("<<<M576>>>" ++ check (runes_of_ascii " " ++ [12]%N ++ runes_of_ascii " ")).
-Eval vm_compute in ("<<<M586>>>" ++ check (runes_of_ascii "mJjx4KYpBxd&KW`i'mpr[TGL WfNZ")).
-Eval vm_compute in ("<<<M596>>>" ++ check (runes_of_ascii "repeat char[] i64 true uint16 packet int ( uint16 zchar[")).
+Eval vm_compute in ("<<<M586>>>" ++ check (runes_of_ascii "l8e")).
+Eval vm_compute in ("<<<M596>>>" ++ check (runes_of_ascii """" ++ [233]%N ++ runes_of_ascii "t" ++ [233]%N ++ runes_of_ascii """ ""CRC32"" uint32 uint32 char @lengthOf( u64 MetaData @leftPad @rightPad int8")).
